@@ -1,4 +1,1807 @@
-From Coq Require Import List Arith ZArith QArith Bool Lia.
+(* C11 — proofs about the Background2D model (C11_Model.v).
+   Part 1: box geometry (partition of the image, the index arithmetic of the four code
+           paths selects exactly the block of a mesh cell).
+   Part 2: statistics bookkeeping (exclusion rule, mask blindness, non-empty kept boxes).
+   Part 3: rational min/max/clip, the IDW fill, the median filter, the final image.
+   Part 4: the pipeline theorems (shape, coverage fill, range, constant image,
+           shift/scale equivariance under hypotheses on the library numerics). *)
+From Coq Require Import List Arith ZArith QArith Bool Lia Lqa Permutation Setoid Morphisms.
 From PV Require Import lib.Cases C11_Model.
 Import ListNotations.
 Open Scope nat_scope.
+
+(* ================================================================== *)
+(* Part 0: generic list / image facts                                   *)
+(* ================================================================== *)
+Lemma mk2_length {A} h w (f : nat -> nat -> A) : length (mk2 h w f) = h.
+Proof. unfold mk2. now rewrite map_length, seq_length. Qed.
+
+Lemma map_seq_nth {A} (g : nat -> A) n d k : k < n -> nth k (map g (seq 0 n)) d = g k.
+Proof.
+  intros H. rewrite nth_indep with (d' := g 0) by (now rewrite map_length, seq_length).
+  rewrite (map_nth g (seq 0 n) 0 k), seq_nth by exact H. reflexivity.
+Qed.
+
+Lemma mk2_row {A} h w (f : nat -> nat -> A) y :
+  y < h -> nth y (mk2 h w f) [] = map (fun x => f y x) (seq 0 w).
+Proof. intros Hy. unfold mk2. now rewrite map_seq_nth. Qed.
+
+Lemma mk2_get {A} (d : A) h w f y x : y < h -> x < w -> get2 d (mk2 h w f) y x = f y x.
+Proof.
+  intros Hy Hx. unfold get2. rewrite mk2_row by exact Hy. now rewrite map_seq_nth.
+Qed.
+
+Lemma mk2_row_length {A} h w (f : nat -> nat -> A) r : In r (mk2 h w f) -> length r = w.
+Proof.
+  unfold mk2. intros H. apply in_map_iff in H as (y & <- & _).
+  now rewrite map_length, seq_length.
+Qed.
+
+Lemma mk2_width {A} h w (f : nat -> nat -> A) : 0 < h -> width (mk2 h w f) = w.
+Proof.
+  intros Hh. unfold width. apply mk2_row_length with (h := h) (f := f).
+  destruct h; [lia|]. unfold mk2. cbn. now left.
+Qed.
+
+Lemma mk2_ext {A} h w (f g : nat -> nat -> A) :
+  (forall y x, y < h -> x < w -> f y x = g y x) -> mk2 h w f = mk2 h w g.
+Proof.
+  intros H. unfold mk2. apply map_ext_in. intros y Hy. apply in_seq in Hy.
+  apply map_ext_in. intros x Hx. apply in_seq in Hx. apply H; lia.
+Qed.
+
+Lemma mk2_in {A} h w (f : nat -> nat -> A) v :
+  In v (concat (mk2 h w f)) -> exists y x, y < h /\ x < w /\ v = f y x.
+Proof.
+  intros H. apply in_concat in H as (r & Hr & Hv). unfold mk2 in Hr.
+  apply in_map_iff in Hr as (y & <- & Hy). apply in_map_iff in Hv as (x & <- & Hx).
+  apply in_seq in Hy. apply in_seq in Hx. exists y, x. repeat split; lia.
+Qed.
+
+Lemma mk2_in_conv {A} h w (f : nat -> nat -> A) y x :
+  y < h -> x < w -> In (f y x) (concat (mk2 h w f)).
+Proof.
+  intros Hy Hx. apply in_concat. exists (map (fun x => f y x) (seq 0 w)). split.
+  - unfold mk2. apply in_map_iff. exists y. split; [reflexivity|apply in_seq; lia].
+  - apply in_map_iff. exists x. split; [reflexivity|apply in_seq; lia].
+Qed.
+
+Lemma map_map_mk2 {A B} (g : A -> B) h w f :
+  map (map g) (mk2 h w f) = mk2 h w (fun y x => g (f y x)).
+Proof. unfold mk2. rewrite map_map. apply map_ext. intros y. now rewrite map_map. Qed.
+
+Lemma NoDup_app_intro {A} (l1 l2 : list A) :
+  NoDup l1 -> NoDup l2 -> (forall a, In a l1 -> ~ In a l2) -> NoDup (l1 ++ l2).
+Proof.
+  induction l1 as [|a l1 IH]; intros H1 H2 H; [exact H2|].
+  cbn. inversion H1; subst. constructor.
+  - rewrite in_app_iff. intros [Hin|Hin]; [tauto|]. apply (H a); [now left|exact Hin].
+  - apply IH; auto. intros b Hb. apply H. now right.
+Qed.
+
+(* flat_map over a product with a jointly injective pairing function has no duplicates *)
+Lemma NoDup_flat_map_pair {A B C} (h : A -> B -> C) la lb :
+  NoDup la -> NoDup lb ->
+  (forall a b a' b', h a b = h a' b' -> a = a' /\ b = b') ->
+  NoDup (flat_map (fun a => map (fun b => h a b) lb) la).
+Proof.
+  intros Ha Hb Hinj. induction la as [|a la IH]; cbn; [constructor|].
+  inversion Ha; subst. apply NoDup_app_intro.
+  - apply FinFun.Injective_map_NoDup; [|exact Hb].
+    intros b b' E. now apply Hinj in E.
+  - now apply IH.
+  - intros c Hc Hc'. apply in_map_iff in Hc as (b & <- & _).
+    apply in_flat_map in Hc' as (a' & Ha' & Hc'). apply in_map_iff in Hc' as (b' & E & _).
+    apply Hinj in E as [-> _]. contradiction.
+Qed.
+
+Lemma flat_map_pair_length {A B C} (h : A -> B -> C) la lb :
+  length (flat_map (fun a => map (fun b => h a b) lb) la) = length la * length lb.
+Proof.
+  induction la as [|a la IH]; cbn; [reflexivity|]. now rewrite app_length, map_length, IH.
+Qed.
+
+(* ================================================================== *)
+(* Part 1: geometry                                                     *)
+(* ================================================================== *)
+Lemma div_eq_iff b y i : 0 < b -> (y / b = i <-> i * b <= y /\ y < (i + 1) * b).
+Proof.
+  intros Hb. split.
+  - intros <-. split.
+    + rewrite Nat.mul_comm. apply Nat.mul_div_le. lia.
+    + replace ((y / b + 1) * b) with (b * S (y / b)) by lia.
+      apply Nat.mul_succ_div_gt. lia.
+  - intros [H1 H2]. symmetry. apply Nat.div_unique with (r := y - i * b); lia.
+Qed.
+
+(* the 1-D picture: mesh index i along an axis of length n with box b covers
+   [i*b, i*b+b) for a core box and [(n/b)*b, n) for the extra (padded) box *)
+Definition seg (n b i y : nat) : Prop :=
+  if i <? n / b then i * b <= y < i * b + b else (n / b) * b <= y < n.
+Definition nmesh (n b : nat) : nat := n / b + (if (n / b) * b <? n then 1 else 0).
+
+Lemma seg_spec n b i y :
+  0 < b -> i < nmesh n b -> (seg n b i y <-> y < n /\ y / b = i).
+Proof.
+  intros Hb Hi. unfold seg, nmesh in *.
+  assert (Hle : n / b * b <= n) by (rewrite Nat.mul_comm; apply Nat.mul_div_le; lia).
+  assert (Hgt : n < (n / b + 1) * b).
+  { replace ((n / b + 1) * b) with (b * S (n / b)) by lia. apply Nat.mul_succ_div_gt. lia. }
+  rewrite div_eq_iff by exact Hb.
+  destruct (i <? n / b) eqn:Ei.
+  - apply Nat.ltb_lt in Ei. split; [|lia]. intros H. split; [|lia].
+    assert ((i + 1) * b <= n / b * b) by (apply Nat.mul_le_mono_r; lia). lia.
+  - apply Nat.ltb_ge in Ei. destruct (n / b * b <? n) eqn:En.
+    + assert (i = n / b) by lia. subst i. lia.
+    + lia.
+Qed.
+
+Lemma nmesh_y ny by_ : nmy ny by_ = nmesh ny by_.
+Proof. reflexivity. Qed.
+Lemma nmesh_x nx bx : nmx nx bx = nmesh nx bx.
+Proof. reflexivity. Qed.
+
+Lemma nmesh_pos n b : 0 < b -> 0 < n -> 0 < nmesh n b.
+Proof.
+  intros Hb Hn. unfold nmesh. destruct (n / b * b <? n) eqn:E; [lia|].
+  apply Nat.ltb_ge in E. destruct (n / b) eqn:D; [cbn in E; lia|lia].
+Qed.
+
+Section GeoProofs.
+Variables (ny nx by_ bx : nat).
+Hypothesis Hby : 0 < by_.
+Hypothesis Hbx : 0 < bx.
+
+Lemma in_core i j y x :
+  In (y, x) (core_coords by_ bx i j) <->
+  (i * by_ <= y < i * by_ + by_) /\ (j * bx <= x < j * bx + bx).
+Proof.
+  unfold core_coords. rewrite in_flat_map. split.
+  - intros (dy & Hdy & H). apply in_map_iff in H as (dx & E & Hdx).
+    apply in_seq in Hdy, Hdx. inversion E; subst. lia.
+  - intros [Hy Hx]. exists (y - i * by_). split; [apply in_seq; lia|].
+    apply in_map_iff. exists (x - j * bx). split; [f_equal; lia|apply in_seq; lia].
+Qed.
+
+Lemma in_row j y x :
+  In (y, x) (row_coords ny by_ bx j) <->
+  (y1 ny by_ <= y < y1 ny by_ + (ny - y1 ny by_)) /\ (j * bx <= x < j * bx + bx).
+Proof.
+  unfold row_coords. rewrite in_flat_map. split.
+  - intros (dx & Hdx & H). apply in_map_iff in H as (r & E & Hr).
+    apply in_seq in Hdx, Hr. inversion E; subst. lia.
+  - intros [Hy Hx]. exists (x - j * bx). split; [apply in_seq; lia|].
+    apply in_map_iff. exists (y - y1 ny by_). split; [f_equal; lia|apply in_seq; lia].
+Qed.
+
+Lemma in_col i y x :
+  In (y, x) (col_coords nx by_ bx i) <->
+  (i * by_ <= y < i * by_ + by_) /\ (x1 nx bx <= x < x1 nx bx + (nx - x1 nx bx)).
+Proof.
+  unfold col_coords. rewrite in_flat_map. split.
+  - intros (c & Hc & H). apply in_map_iff in H as (dy & E & Hdy).
+    apply in_seq in Hc, Hdy. inversion E; subst. lia.
+  - intros [Hy Hx]. exists (x - x1 nx bx). split; [apply in_seq; lia|].
+    apply in_map_iff. exists (y - i * by_). split; [f_equal; lia|apply in_seq; lia].
+Qed.
+
+Lemma in_crn y x :
+  In (y, x) (crn_coords ny nx by_ bx) <->
+  (y1 ny by_ <= y < y1 ny by_ + (ny - y1 ny by_)) /\ (x1 nx bx <= x < x1 nx bx + (nx - x1 nx bx)).
+Proof.
+  unfold crn_coords. rewrite in_flat_map. split.
+  - intros (r & Hr & H). apply in_map_iff in H as (c & E & Hc).
+    apply in_seq in Hr, Hc. inversion E; subst. lia.
+  - intros [Hy Hx]. exists (y - y1 ny by_). split; [apply in_seq; lia|].
+    apply in_map_iff. exists (x - x1 nx bx). split; [f_equal; lia|apply in_seq; lia].
+Qed.
+
+Lemma y1_le : y1 ny by_ <= ny.
+Proof. unfold y1, nby. rewrite Nat.mul_comm. apply Nat.mul_div_le. lia. Qed.
+Lemma x1_le : x1 nx bx <= nx.
+Proof. unfold x1, nbx. rewrite Nat.mul_comm. apply Nat.mul_div_le. lia. Qed.
+
+(* whichever of the four code paths computes cell (i,j), the coordinates it gathers are
+   exactly the pixels of the 1-D segments i (rows) and j (columns) *)
+Lemma in_cell_seg i j y x :
+  In (y, x) (cell_coords ny nx by_ bx i j) <-> seg ny by_ i y /\ seg nx bx j x.
+Proof.
+  pose proof y1_le as Hy1. pose proof x1_le as Hx1.
+  unfold cell_coords, seg. fold (nby ny by_) (nbx nx bx).
+  destruct (i <? nby ny by_), (j <? nbx nx bx).
+  - apply in_core.
+  - rewrite in_col. unfold x1 in *. lia.
+  - rewrite in_row. unfold y1 in *. lia.
+  - rewrite in_crn. unfold y1, x1 in *. lia.
+Qed.
+
+(* mesh_cell_is_block *)
+Lemma cell_coords_spec i j y x :
+  i < nmy ny by_ -> j < nmx nx bx ->
+  (In (y, x) (cell_coords ny nx by_ bx i j) <->
+   y < ny /\ x < nx /\ y / by_ = i /\ x / bx = j).
+Proof.
+  intros Hi Hj. rewrite in_cell_seg.
+  rewrite (seg_spec ny by_ i y Hby Hi), (seg_spec nx bx j x Hbx Hj). tauto.
+Qed.
+
+Lemma cell_coords_NoDup i j : NoDup (cell_coords ny nx by_ bx i j).
+Proof.
+  unfold cell_coords.
+  destruct (i <? nby ny by_), (j <? nbx nx bx);
+    [unfold core_coords|unfold col_coords|unfold row_coords|unfold crn_coords];
+    (apply NoDup_flat_map_pair; [apply seq_NoDup|apply seq_NoDup|]);
+    intros a b a' b' E; inversion E; lia.
+Qed.
+
+(* the mesh index of a pixel *)
+Lemma pixel_cell_in_mesh y x :
+  y < ny -> x < nx -> y / by_ < nmy ny by_ /\ x / bx < nmx nx bx.
+Proof.
+  intros Hy Hx. change (nmy ny by_) with (nmesh ny by_). change (nmx nx bx) with (nmesh nx bx).
+  unfold nmesh.
+  assert (A : forall n b v, 0 < b -> v < n -> v / b < n / b + (if n / b * b <? n then 1 else 0)).
+  { intros n b v Hb Hv.
+    assert (v / b <= n / b) by (apply Nat.div_le_mono; lia).
+    destruct (n / b * b <? n) eqn:E; [lia|]. apply Nat.ltb_ge in E.
+    assert (n = n / b * b).
+    { assert (n / b * b <= n) by (rewrite Nat.mul_comm; apply Nat.mul_div_le; lia). lia. }
+    apply Nat.div_lt_upper_bound; lia. }
+  split; apply A; assumption.
+Qed.
+
+(* boxes_partition_image: every pixel of the image lies in exactly one mesh cell's
+   coordinate list, exactly once; and mesh cells contain nothing but image pixels *)
+Lemma boxes_partition y x :
+  y < ny -> x < nx ->
+  exists i j, i < nmy ny by_ /\ j < nmx nx bx /\
+    In (y, x) (cell_coords ny nx by_ bx i j) /\
+    NoDup (cell_coords ny nx by_ bx i j) /\
+    forall i' j', i' < nmy ny by_ -> j' < nmx nx bx ->
+      In (y, x) (cell_coords ny nx by_ bx i' j') -> i' = i /\ j' = j.
+Proof.
+  intros Hy Hx. destruct (pixel_cell_in_mesh y x Hy Hx) as [Hi Hj].
+  exists (y / by_), (x / bx). repeat split; try assumption.
+  - apply cell_coords_spec; auto.
+  - apply cell_coords_NoDup.
+  - apply cell_coords_spec in H1; auto. lia.
+  - apply cell_coords_spec in H1; auto. lia.
+Qed.
+
+Lemma cell_coords_in_image i j c :
+  i < nmy ny by_ -> j < nmx nx bx ->
+  In c (cell_coords ny nx by_ bx i j) -> fst c < ny /\ snd c < nx.
+Proof.
+  intros Hi Hj H. destruct c as [y x]. apply cell_coords_spec in H; auto. cbn. lia.
+Qed.
+
+(* the row-major enumeration of the block of mesh cell (i,j) *)
+Definition block_rows (i : nat) : list nat :=
+  seq (i * by_) (Nat.min ((i + 1) * by_) ny - i * by_).
+Definition block_cols (j : nat) : list nat :=
+  seq (j * bx) (Nat.min ((j + 1) * bx) nx - j * bx).
+Definition block_coords (i j : nat) : list (nat * nat) :=
+  flat_map (fun y => map (fun x => (y, x)) (block_cols j)) (block_rows i).
+
+Lemma in_block i j y x :
+  In (y, x) (block_coords i j) <->
+  (i * by_ <= y < Nat.min ((i + 1) * by_) ny) /\ (j * bx <= x < Nat.min ((j + 1) * bx) nx).
+Proof.
+  unfold block_coords, block_rows, block_cols. rewrite in_flat_map. split.
+  - intros (y' & Hy' & H). apply in_map_iff in H as (x' & E & Hx').
+    apply in_seq in Hy', Hx'. inversion E; subst. lia.
+  - intros [Hy Hx]. exists y. split; [apply in_seq; lia|].
+    apply in_map_iff. exists x. split; [reflexivity|apply in_seq; lia].
+Qed.
+
+Lemma block_NoDup i j : NoDup (block_coords i j).
+Proof.
+  unfold block_coords. apply NoDup_flat_map_pair; try apply seq_NoDup.
+  intros a b a' b' E. now inversion E.
+Qed.
+
+(* the coordinates gathered by the code for cell (i,j) are a rearrangement of the
+   pixels of the block rows [i*by, min((i+1)*by, ny)) x cols [j*bx, min((j+1)*bx, nx)) *)
+Lemma cell_is_block i j :
+  i < nmy ny by_ -> j < nmx nx bx ->
+  Permutation (cell_coords ny nx by_ bx i j) (block_coords i j).
+Proof.
+  intros Hi Hj. apply NoDup_Permutation.
+  - apply cell_coords_NoDup.
+  - apply block_NoDup.
+  - intros [y x]. rewrite cell_coords_spec, in_block by assumption.
+    rewrite !div_eq_iff by assumption. lia.
+Qed.
+
+Lemma block_length i j :
+  length (block_coords i j) =
+  (Nat.min ((i + 1) * by_) ny - i * by_) * (Nat.min ((j + 1) * bx) nx - j * bx).
+Proof.
+  unfold block_coords, block_rows, block_cols.
+  now rewrite flat_map_pair_length, !seq_length.
+Qed.
+
+(* a padded (edge) cell has fewer real pixels than the full box, never more *)
+Lemma cell_length_le i j :
+  i < nmy ny by_ -> j < nmx nx bx ->
+  length (cell_coords ny nx by_ bx i j) <= by_ * bx.
+Proof.
+  intros Hi Hj. rewrite (Permutation_length (cell_is_block i j Hi Hj)), block_length.
+  apply Nat.mul_le_mono; lia.
+Qed.
+End GeoProofs.
+
+(* ================================================================== *)
+(* Part 2: statistics bookkeeping                                       *)
+(* ================================================================== *)
+Lemma Qlt_bool_iff a b : Qlt_bool a b = true <-> (a < b)%Q.
+Proof.
+  unfold Qlt_bool. rewrite negb_true_iff. split.
+  - intros H. apply Qnot_le_lt. intros Hle. apply Qle_bool_iff in Hle. congruence.
+  - intros H. destruct (Qle_bool b a) eqn:E; [|reflexivity].
+    apply Qle_bool_iff in E. exfalso. revert E. now apply Qlt_not_le.
+Qed.
+
+Lemma goodvals_app l1 l2 : goodvals (l1 ++ l2) = goodvals l1 ++ goodvals l2.
+Proof. unfold goodvals. now rewrite flat_map_app. Qed.
+
+Lemma goodvals_map f l :
+  goodvals (map (option_map f) l) = map f (goodvals l).
+Proof.
+  unfold goodvals. induction l as [|[v|] l IH]; cbn; [reflexivity| |exact IH]. now rewrite IH.
+Qed.
+
+Lemma goodvals_length_le l : length (goodvals l) <= length l.
+Proof. unfold goodvals. induction l as [|[v|] l IH]; cbn; lia. Qed.
+
+Lemma forallb_map {A B} (g : A -> B) (f : B -> bool) l :
+  forallb f (map g l) = forallb (fun a => f (g a)) l.
+Proof. induction l as [|a l IH]; cbn; [reflexivity|now rewrite IH]. Qed.
+
+Lemma forallb_ext' {A} (f g : A -> bool) l : (forall a, f a = g a) -> forallb f l = forallb g l.
+Proof. intros H. induction l as [|a l IH]; cbn; [reflexivity|now rewrite H, IH]. Qed.
+
+Section StatProofs.
+Variables (ny nx by_ bx : nat).
+Hypothesis Hby : 0 < by_.
+Hypothesis Hbx : 0 < bx.
+Variable data : img (option Z).
+Variables mask cov : img bool.
+Variable p : Q.
+Variables est rms : list Z -> Q.
+Variable clip : list Z -> list Z.
+
+Notation H_ := (nmy ny by_).
+Notation W_ := (nmx nx bx).
+Notation cell := (cell_coords ny nx by_ bx).
+Notation bvals := (box_vals data mask cov clip).
+Notation bstat := (box_stat by_ bx data mask cov p est rms clip).
+
+(* the exclusion rule of the (repaired) code, in the documented form:
+   excluded iff the box has no good pixel, or fewer good pixels than
+   (1 - p/100) * box_npixels  —  the FULL box size by*bx whatever the cell *)
+Lemma excluded_iff n :
+  excluded by_ bx p n = true <->
+  n = 0 \/ (inject_Z (Z.of_nat n) < (1 - p / 100) * inject_Z (Z.of_nat (by_ * bx)))%Q.
+Proof.
+  unfold excluded, good_thr, box_npixels. rewrite orb_true_iff, Qlt_bool_iff, Nat.eqb_eq. tauto.
+Qed.
+
+(* the same rule as a statement about the masked fraction: more than p percent of the
+   full box is masked (or everything) *)
+Lemma excluded_iff_masked_fraction n :
+  excluded by_ bx p n = true <->
+  n = 0 \/ (p / 100 * inject_Z (Z.of_nat (by_ * bx)) <
+            inject_Z (Z.of_nat (by_ * bx)) - inject_Z (Z.of_nat n))%Q.
+Proof.
+  rewrite excluded_iff.
+  set (N := inject_Z (Z.of_nat (by_ * bx))). set (g := inject_Z (Z.of_nat n)).
+  assert (E : ((1 - p / 100) * N == N - p / 100 * N)%Q) by field.
+  rewrite E. split; (intros [H|H]; [now left|right]); lra.
+Qed.
+
+Lemma kept_nonempty n : excluded by_ bx p n = false -> 0 < n.
+Proof.
+  unfold excluded. rewrite orb_false_iff. intros [_ H]. apply Nat.eqb_neq in H. lia.
+Qed.
+
+Lemma box_stat_excluded coords :
+  excluded by_ bx p (length (bvals coords)) = true ->
+  bstat coords = (None, None, length (bvals coords)).
+Proof. intros H. unfold box_stat. now rewrite H. Qed.
+
+Lemma box_stat_kept coords :
+  excluded by_ bx p (length (bvals coords)) = false ->
+  bstat coords = (Some (est (bvals coords)), Some (rms (bvals coords)), length (bvals coords)).
+Proof. intros H. unfold box_stat. now rewrite H. Qed.
+
+Lemma bkg_stats_mk2 :
+  bkg_stats ny nx by_ bx data mask cov p est rms clip =
+  mk2 H_ W_ (fun i j => fst (fst (bstat (cell i j)))).
+Proof. unfold bkg_stats, stat_mesh. now rewrite map_map_mk2. Qed.
+Lemma rms_stats_mk2 :
+  rms_stats ny nx by_ bx data mask cov p est rms clip =
+  mk2 H_ W_ (fun i j => snd (fst (bstat (cell i j)))).
+Proof. unfold rms_stats, stat_mesh. now rewrite map_map_mk2. Qed.
+Lemma ngood_mesh_mk2 :
+  ngood_mesh ny nx by_ bx data mask cov p est rms clip =
+  mk2 H_ W_ (fun i j => snd (bstat (cell i j))).
+Proof. unfold ngood_mesh, stat_mesh. now rewrite map_map_mk2. Qed.
+Lemma nan_mask_mk2 :
+  nan_mask ny nx by_ bx data mask cov p est rms clip =
+  mk2 H_ W_ (fun i j => excluded by_ bx p (length (bvals (cell i j)))).
+Proof.
+  unfold nan_mask. rewrite bkg_stats_mk2, map_map_mk2. apply mk2_ext. intros i j _ _.
+  unfold box_stat. now destruct (excluded by_ bx p (length (bvals (cell i j)))).
+Qed.
+Lemma all_excluded_nan :
+  all_excluded ny nx by_ bx data mask cov p est rms clip =
+  forallb (forallb (fun b : bool => b)) (nan_mask ny nx by_ bx data mask cov p est rms clip).
+Proof.
+  unfold all_excluded, nan_mask. rewrite forallb_map. apply forallb_ext'. intros r.
+  now rewrite forallb_map.
+Qed.
+
+(* exclusion_rule, cell by cell *)
+Lemma mesh_cell_rule i j :
+  i < H_ -> j < W_ ->
+  let vals := bvals (cell i j) in
+  let n := length vals in
+  get2 0 (ngood_mesh ny nx by_ bx data mask cov p est rms clip) i j = n /\
+  (get2 None (bkg_stats ny nx by_ bx data mask cov p est rms clip) i j = None <->
+     n = 0 \/ (inject_Z (Z.of_nat n) < (1 - p / 100) * inject_Z (Z.of_nat (by_ * bx)))%Q) /\
+  (get2 None (rms_stats ny nx by_ bx data mask cov p est rms clip) i j = None <->
+     get2 None (bkg_stats ny nx by_ bx data mask cov p est rms clip) i j = None) /\
+  (get2 false (nan_mask ny nx by_ bx data mask cov p est rms clip) i j = true <->
+     get2 None (bkg_stats ny nx by_ bx data mask cov p est rms clip) i j = None) /\
+  (get2 None (bkg_stats ny nx by_ bx data mask cov p est rms clip) i j <> None ->
+     0 < n /\
+     get2 None (bkg_stats ny nx by_ bx data mask cov p est rms clip) i j = Some (est vals) /\
+     get2 None (rms_stats ny nx by_ bx data mask cov p est rms clip) i j = Some (rms vals)).
+Proof.
+  intros Hi Hj vals n.
+  rewrite ngood_mesh_mk2, bkg_stats_mk2, rms_stats_mk2, nan_mask_mk2, !mk2_get by assumption.
+  fold vals. fold n. rewrite <- excluded_iff.
+  unfold box_stat. fold vals. fold n.
+  destruct (excluded by_ bx p n) eqn:E; cbn.
+  - repeat split; auto; try congruence.
+  - repeat split; auto; try congruence. now apply kept_nonempty.
+Qed.
+
+(* the values a cell's statistics see are the unmasked finite pixels of its coordinate
+   list, in the order of that list, then clipped *)
+Lemma pix_some y x v :
+  pix data mask cov y x = Some v <->
+  get2 false mask y x = false /\ get2 false cov y x = false /\ get2 None data y x = Some v.
+Proof.
+  unfold pix, masked. destruct (get2 false mask y x), (get2 false cov y x); cbn;
+    intuition congruence.
+Qed.
+End StatProofs.
+
+(* mask_blind at the level of the statistics: two images that agree on every pixel that is
+   neither masked nor coverage-masked give the same mesh statistics *)
+Section MaskBlind.
+Variables (ny nx by_ bx : nat).
+Hypothesis Hby : 0 < by_.
+Hypothesis Hbx : 0 < bx.
+Variables data data' : img (option Z).
+Variables mask cov : img bool.
+Variable p : Q.
+Variables est rms : list Z -> Q.
+Variable clip : list Z -> list Z.
+Hypothesis Hagree : forall y x, y < ny -> x < nx ->
+  get2 false mask y x = false -> get2 false cov y x = false ->
+  get2 None data y x = get2 None data' y x.
+
+Lemma pix_agree y x : y < ny -> x < nx -> pix data mask cov y x = pix data' mask cov y x.
+Proof.
+  intros Hy Hx. unfold pix, masked.
+  destruct (get2 false mask y x) eqn:E1, (get2 false cov y x) eqn:E2; cbn; auto.
+Qed.
+
+Lemma stat_mesh_blind :
+  stat_mesh ny nx by_ bx data mask cov p est rms clip =
+  stat_mesh ny nx by_ bx data' mask cov p est rms clip.
+Proof.
+  unfold stat_mesh. apply mk2_ext. intros i j Hi Hj.
+  unfold box_stat, box_vals.
+  replace (map (fun c => pix data' mask cov (fst c) (snd c)) (cell_coords ny nx by_ bx i j))
+    with (map (fun c => pix data mask cov (fst c) (snd c)) (cell_coords ny nx by_ bx i j)).
+  - reflexivity.
+  - apply map_ext_in. intros c Hc.
+    destruct (cell_coords_in_image ny nx by_ bx Hby Hbx i j c Hi Hj Hc). now apply pix_agree.
+Qed.
+End MaskBlind.
+
+(* ================================================================== *)
+(* Part 3: rational min / max / clip                                    *)
+(* ================================================================== *)
+Open Scope Q_scope.
+
+Lemma Qle_bool_false a b : Qle_bool a b = false -> b < a.
+Proof.
+  intros H. apply Qnot_le_lt. intros Hle. apply Qle_bool_iff in Hle. congruence.
+Qed.
+
+Lemma qmin2_cases a b : (qmin2 a b = a /\ a <= b) \/ (qmin2 a b = b /\ b <= a).
+Proof.
+  unfold qmin2. destruct (Qle_bool a b) eqn:E.
+  - left. split; [reflexivity|now apply Qle_bool_iff].
+  - right. split; [reflexivity|]. apply Qlt_le_weak. now apply Qle_bool_false.
+Qed.
+Lemma qmax2_cases a b : (qmax2 a b = b /\ a <= b) \/ (qmax2 a b = a /\ b <= a).
+Proof.
+  unfold qmax2. destruct (Qle_bool a b) eqn:E.
+  - left. split; [reflexivity|now apply Qle_bool_iff].
+  - right. split; [reflexivity|]. apply Qlt_le_weak. now apply Qle_bool_false.
+Qed.
+
+Lemma fold_qmin2_spec r : forall a,
+  In (fold_left qmin2 r a) (a :: r) /\ forall x, In x (a :: r) -> fold_left qmin2 r a <= x.
+Proof.
+  induction r as [|b r IH]; intros a; cbn [fold_left].
+  - split; [now left|]. intros x [<-|[]]. apply Qle_refl.
+  - destruct (IH (qmin2 a b)) as [Hin Hle]. split.
+    + destruct Hin as [E|Hin]; [|right; now right].
+      rewrite <- E. destruct (qmin2_cases a b) as [[-> _]|[-> _]]; [now left|right; now left].
+    + intros x Hx.
+      assert (Hm : fold_left qmin2 r (qmin2 a b) <= qmin2 a b) by (apply Hle; now left).
+      destruct Hx as [<-|[<-|Hx]].
+      * eapply Qle_trans; [exact Hm|]. destruct (qmin2_cases a b) as [[-> H]|[-> H]];
+          [apply Qle_refl|exact H].
+      * eapply Qle_trans; [exact Hm|]. destruct (qmin2_cases a b) as [[-> H]|[-> H]];
+          [exact H|apply Qle_refl].
+      * apply Hle. now right.
+Qed.
+Lemma fold_qmax2_spec r : forall a,
+  In (fold_left qmax2 r a) (a :: r) /\ forall x, In x (a :: r) -> x <= fold_left qmax2 r a.
+Proof.
+  induction r as [|b r IH]; intros a; cbn [fold_left].
+  - split; [now left|]. intros x [<-|[]]. apply Qle_refl.
+  - destruct (IH (qmax2 a b)) as [Hin Hle]. split.
+    + destruct Hin as [E|Hin]; [|right; now right].
+      rewrite <- E. destruct (qmax2_cases a b) as [[-> _]|[-> _]]; [right; now left|now left].
+    + intros x Hx.
+      assert (Hm : qmax2 a b <= fold_left qmax2 r (qmax2 a b)) by (apply Hle; now left).
+      destruct Hx as [<-|[<-|Hx]].
+      * eapply Qle_trans; [|exact Hm]. destruct (qmax2_cases a b) as [[-> H]|[-> H]];
+          [exact H|apply Qle_refl].
+      * eapply Qle_trans; [|exact Hm]. destruct (qmax2_cases a b) as [[-> H]|[-> H]];
+          [apply Qle_refl|exact H].
+      * apply Hle. now right.
+Qed.
+
+Lemma qminl_in l : l <> [] -> In (qminl l) l.
+Proof. destruct l as [|a r]; [congruence|]. intros _. apply fold_qmin2_spec. Qed.
+Lemma qmaxl_in l : l <> [] -> In (qmaxl l) l.
+Proof. destruct l as [|a r]; [congruence|]. intros _. apply fold_qmax2_spec. Qed.
+Lemma qminl_le l x : In x l -> qminl l <= x.
+Proof. destruct l as [|a r]; [intros []|]. apply fold_qmin2_spec. Qed.
+Lemma qmaxl_ge l x : In x l -> x <= qmaxl l.
+Proof. destruct l as [|a r]; [intros []|]. apply fold_qmax2_spec. Qed.
+Lemma qminl_le_qmaxl l : qminl l <= qmaxl l.
+Proof.
+  destruct l as [|a r]; [apply Qle_refl|].
+  eapply Qle_trans; [apply qminl_le|apply qmaxl_ge]; now left.
+Qed.
+
+(* np.clip(v, lo, hi) for lo <= hi *)
+Lemma clipq_range lo hi v : lo <= hi -> lo <= clipq lo hi v /\ clipq lo hi v <= hi.
+Proof.
+  intros H. unfold clipq. destruct (Qle_bool v lo) eqn:E1; [split; [apply Qle_refl|exact H]|].
+  destruct (Qle_bool hi v) eqn:E2; [split; [exact H|apply Qle_refl]|].
+  apply Qle_bool_false in E1, E2. split; now apply Qlt_le_weak.
+Qed.
+Lemma clipq_inside lo hi v : lo <= v -> v <= hi -> clipq lo hi v == v.
+Proof.
+  intros H1 H2. unfold clipq. destruct (Qle_bool v lo) eqn:E1.
+  - apply Qle_bool_iff in E1. now apply Qle_antisym.
+  - destruct (Qle_bool hi v) eqn:E2; [|reflexivity].
+    apply Qle_bool_iff in E2. now apply Qle_antisym.
+Qed.
+
+(* all elements == c *)
+Definition allq (c : Q) (l : list Q) : Prop := forall v, In v l -> v == c.
+Lemma qminl_const c l : l <> [] -> allq c l -> qminl l == c.
+Proof. intros Hn H. apply H. now apply qminl_in. Qed.
+Lemma qmaxl_const c l : l <> [] -> allq c l -> qmaxl l == c.
+Proof. intros Hn H. apply H. now apply qmaxl_in. Qed.
+
+Lemma somes_in {A} (l : list (option A)) v : In v (somes l) <-> In (Some v) l.
+Proof.
+  unfold somes. rewrite in_flat_map. split.
+  - intros ([w|] & Hin & H); cbn in H; [|destruct H]. destruct H as [->|[]]. exact Hin.
+  - intros H. exists (Some v). split; [exact H|now left].
+Qed.
+
+(* ================================================================== *)
+(* Part 4a: shapes and stage lemmas (IDW fill, median filter, image)    *)
+(* ================================================================== *)
+Definition shape {A} (h w : nat) (m : img A) : Prop :=
+  length m = h /\ forall r, In r m -> length r = w.
+
+Lemma shape_mk2 {A} h w (f : nat -> nat -> A) : shape h w (mk2 h w f).
+Proof. split; [apply mk2_length|apply mk2_row_length]. Qed.
+Lemma shape_width {A} h w (m : img A) : shape h w m -> (0 < h)%nat -> width m = w.
+Proof.
+  intros [Hl Hr] Hh. unfold width. destruct m as [|r m]; [cbn in Hl; lia|]. apply Hr. now left.
+Qed.
+
+Lemma forallb_false_ex {A} (f : A -> bool) l :
+  forallb f l = false -> exists a, In a l /\ f a = false.
+Proof.
+  induction l as [|a l IH]; cbn; [discriminate|]. destruct (f a) eqn:E.
+  - intros H. destruct (IH H) as (b & Hb & Hf). exists b. split; [now right|exact Hf].
+  - intros _. exists a. split; [now left|exact E].
+Qed.
+
+Lemma mk2_forallb_false {A} (g : A -> bool) h w f :
+  forallb (forallb g) (mk2 h w f) = false ->
+  exists i j, (i < h)%nat /\ (j < w)%nat /\ g (f i j) = false.
+Proof.
+  intros H. apply forallb_false_ex in H as (r & Hr & H).
+  apply forallb_false_ex in H as (v & Hv & H).
+  unfold mk2 in Hr. apply in_map_iff in Hr as (i & <- & Hi). apply in_map_iff in Hv as (j & <- & Hj).
+  apply in_seq in Hi, Hj. exists i, j. repeat split; try lia. exact H.
+Qed.
+
+Section StageProofs.
+Variable idw : img (option Q) -> nat -> nat -> Q.
+Variable median : list Q -> Q.
+Variables (fy fx : nat).
+Variable fthr : option Q.
+Hypothesis Hfy : (0 < fy)%nat.
+Hypothesis Hfx : (0 < fx)%nat.
+
+Lemma interp_grid_mk2 h w f :
+  (0 < h)%nat ->
+  interp_grid idw (mk2 h w f) =
+  mk2 h w (fun i j => match f i j with
+                      | Some v => v
+                      | None => clipq (qminl (somes (concat (mk2 h w f))))
+                                      (qmaxl (somes (concat (mk2 h w f)))) (idw (mk2 h w f) i j)
+                      end).
+Proof.
+  intros Hh. unfold interp_grid. rewrite mk2_length, mk2_width by exact Hh.
+  apply mk2_ext. intros i j Hi Hj. now rewrite mk2_get.
+Qed.
+
+Lemma interp_grid_shape h w g : shape h w g -> (0 < h)%nat -> shape h w (interp_grid idw g).
+Proof.
+  intros Hs Hh. unfold interp_grid. rewrite (shape_width h w g Hs Hh).
+  destruct Hs as [-> _]. apply shape_mk2.
+Qed.
+
+(* every value of the filled grid lies within the range of the good (non-NaN) cells *)
+Lemma interp_grid_range h w f i j :
+  (0 < h)%nat -> (i < h)%nat -> (j < w)%nat ->
+  let good := somes (concat (mk2 h w f)) in
+  qminl good <= get2 0 (interp_grid idw (mk2 h w f)) i j <= qmaxl good.
+Proof.
+  intros Hh Hi Hj good. rewrite interp_grid_mk2, mk2_get by assumption. fold good.
+  destruct (f i j) as [v|] eqn:E.
+  - assert (In v good) by (apply somes_in; rewrite <- E; now apply mk2_in_conv).
+    split; [now apply qminl_le|now apply qmaxl_ge].
+  - apply clipq_range, qminl_le_qmaxl.
+Qed.
+
+(* kept cells are not touched by the fill *)
+Lemma interp_grid_kept h w f i j v :
+  (0 < h)%nat -> (i < h)%nat -> (j < w)%nat -> f i j = Some v ->
+  get2 0 (interp_grid idw (mk2 h w f)) i j = v.
+Proof. intros Hh Hi Hj E. rewrite interp_grid_mk2, mk2_get by assumption. now rewrite E. Qed.
+
+Lemma window_in H W (m : img Q) i j v :
+  In v (window fy fx H W m i j) -> exists y x, (y < H)%nat /\ (x < W)%nat /\ v = get2 0 m y x.
+Proof.
+  unfold window. intros Hin. apply in_flat_map in Hin as (y & Hy & Hin).
+  apply in_map_iff in Hin as (x & <- & Hx). apply in_seq in Hy, Hx.
+  exists y, x. repeat split; lia.
+Qed.
+
+Lemma window_center H W (m : img Q) i j :
+  (i < H)%nat -> (j < W)%nat -> In (get2 0 m i j) (window fy fx H W m i j).
+Proof.
+  intros Hi Hj. unfold window. apply in_flat_map. exists i.
+  assert (fy / 2 < fy)%nat by (apply Nat.div_lt; lia).
+  assert (fx / 2 < fx)%nat by (apply Nat.div_lt; lia).
+  split; [apply in_seq; lia|]. apply in_map_iff. exists j. split; [reflexivity|apply in_seq; lia].
+Qed.
+
+Lemma filter_grid_shape h w minb sel m :
+  shape h w m -> (0 < h)%nat -> shape h w (filter_grid median fy fx fthr minb sel m).
+Proof.
+  intros Hs Hh. unfold filter_grid, full_filter, selective_filter.
+  rewrite (shape_width h w m Hs Hh). destruct Hs as [Hl Hr]. rewrite Hl.
+  destruct ((fy =? 1)%nat && (fx =? 1)%nat); [now split|].
+  destruct fthr as [t|]; [destruct (Qlt_bool t minb)|]; apply shape_mk2.
+Qed.
+
+(* a pointwise invariant of a grid (all values satisfy P) survives the filter if the
+   median of a non-empty window of P-values is a P-value *)
+Lemma filter_grid_pointwise (P : Q -> Prop) h w minb sel f :
+  (0 < h)%nat ->
+  (forall l, l <> [] -> (forall v, In v l -> P v) -> P (median l)) ->
+  (forall i j, (i < h)%nat -> (j < w)%nat -> P (f i j)) ->
+  forall i j, (i < h)%nat -> (j < w)%nat ->
+    P (get2 0 (filter_grid median fy fx fthr minb sel (mk2 h w f)) i j).
+Proof.
+  intros Hh Hmed HP i j Hi Hj.
+  assert (Hwin : P (median (window fy fx h w (mk2 h w f) i j))).
+  { apply Hmed.
+    - intros E. pose proof (window_center h w (mk2 h w f) i j Hi Hj) as Hc. rewrite E in Hc.
+      destruct Hc.
+    - intros v Hv. apply window_in in Hv as (y & x & Hy & Hx & ->). rewrite mk2_get by assumption.
+      now apply HP. }
+  unfold filter_grid, full_filter, selective_filter.
+  rewrite mk2_length, mk2_width by exact Hh.
+  destruct ((fy =? 1)%nat && (fx =? 1)%nat).
+  { rewrite mk2_get by assumption. now apply HP. }
+  destruct fthr as [t|]; [destruct (Qlt_bool t minb)|]; rewrite mk2_get by assumption; auto.
+  destruct (Qlt_bool t (get2 0 sel i j)); auto. rewrite mk2_get by assumption. now apply HP.
+Qed.
+End StageProofs.
+
+Section ImageProofs.
+Variables (ny nx : nat).
+Variable cov : img bool.
+Variable fill : Q.
+Variable do_clip : bool.
+Variable interp : img Q -> nat -> nat -> Q.
+
+Lemma calc_image_shape m : shape ny nx (calc_image ny nx cov fill do_clip interp m).
+Proof. apply shape_mk2. Qed.
+
+(* coverage_is_fill_exactly *)
+Lemma calc_image_cov m y x d :
+  (y < ny)%nat -> (x < nx)%nat -> get2 false cov y x = true ->
+  get2 d (calc_image ny nx cov fill do_clip interp m) y x = fill.
+Proof. intros Hy Hx Hc. unfold calc_image. rewrite mk2_get by assumption. now rewrite Hc. Qed.
+
+(* with clip=True every pixel outside the coverage mask lies within the range of the mesh *)
+Lemma calc_image_range m y x d :
+  do_clip = true -> (y < ny)%nat -> (x < nx)%nat -> get2 false cov y x = false ->
+  qminl (concat m) <= get2 d (calc_image ny nx cov fill do_clip interp m) y x <= qmaxl (concat m).
+Proof.
+  intros -> Hy Hx Hc. unfold calc_image. rewrite mk2_get by assumption. rewrite Hc.
+  destruct (Qeq_bool (qmaxl (concat m)) (qminl (concat m))).
+  - split; [apply Qle_refl|apply qminl_le_qmaxl].
+  - apply clipq_range, qminl_le_qmaxl.
+Qed.
+
+(* a constant mesh gives a constant map (the ptp == 0 branch), whatever the interpolator *)
+Lemma calc_image_const c m y x d :
+  concat m <> [] -> allq c (concat m) ->
+  (y < ny)%nat -> (x < nx)%nat -> get2 false cov y x = false ->
+  get2 d (calc_image ny nx cov fill do_clip interp m) y x == c.
+Proof.
+  intros Hn Hall Hy Hx Hc. unfold calc_image. rewrite mk2_get by assumption. rewrite Hc.
+  pose proof (qminl_const c _ Hn Hall) as Hlo. pose proof (qmaxl_const c _ Hn Hall) as Hhi.
+  assert (E : Qeq_bool (qmaxl (concat m)) (qminl (concat m)) = true).
+  { apply Qeq_bool_iff. now rewrite Hlo, Hhi. }
+  rewrite E. exact Hlo.
+Qed.
+End ImageProofs.
+
+(* ================================================================== *)
+(* Part 4b: the pipeline                                                *)
+(* ================================================================== *)
+Lemma clipbox_pos b n : (0 < b)%nat -> (0 < n)%nat -> (0 < clipbox b n <= n)%nat.
+Proof. intros Hb Hn. unfold clipbox. destruct (n <? b)%nat eqn:E; [lia|]. apply Nat.ltb_ge in E. lia. Qed.
+
+Lemma nmy_pos ny b : (0 < b)%nat -> (0 < ny)%nat -> (0 < nmy ny b)%nat.
+Proof. apply nmesh_pos. Qed.
+Lemma nmx_pos nx b : (0 < b)%nat -> (0 < nx)%nat -> (0 < nmx nx b)%nat.
+Proof. apply nmesh_pos. Qed.
+
+Lemma concat_mk2_nonempty {A} h w (f : nat -> nat -> A) :
+  (0 < h)%nat -> (0 < w)%nat -> concat (mk2 h w f) <> [].
+Proof.
+  intros Hh Hw E. assert (Hin : In (f 0%nat 0%nat) (concat (mk2 h w f))) by now apply mk2_in_conv.
+  rewrite E in Hin. destruct Hin.
+Qed.
+
+Section PipeProofs.
+Variables (ny nx by0 bx0 : nat).
+Hypothesis Hny : (0 < ny)%nat.
+Hypothesis Hnx : (0 < nx)%nat.
+Hypothesis Hby0 : (0 < by0)%nat.
+Hypothesis Hbx0 : (0 < bx0)%nat.
+Variable data : img (option Z).
+Variables mask cov : img bool.
+Variable p : Q.
+Variables est rms : list Z -> Q.
+Variable clip : list Z -> list Z.
+Variable idw : img (option Q) -> nat -> nat -> Q.
+Variable median : list Q -> Q.
+Variables (fy fx : nat) (fthr : option Q).
+Hypothesis Hfy : (0 < fy)%nat.
+Hypothesis Hfx : (0 < fx)%nat.
+Variables (fill : Q) (do_clip : bool).
+Variable interp : img Q -> nat -> nat -> Q.
+
+Notation by_ := (clipbox by0 ny).
+Notation bx := (clipbox bx0 nx).
+Notation H_ := (nmy ny by_).
+Notation W_ := (nmx nx bx).
+Notation cell := (cell_coords ny nx by_ bx).
+Notation bvals := (box_vals data mask cov clip).
+Notation bs := (bkg_stats ny nx by_ bx data mask cov p est rms clip).
+Notation rs := (rms_stats ny nx by_ bx data mask cov p est rms clip).
+Notation fb := (fun i j => fst (fst (box_stat by_ bx data mask cov p est rms clip (cell i j)))).
+Notation fr := (fun i j => snd (fst (box_stat by_ bx data mask cov p est rms clip (cell i j)))).
+Notation b2d := (background2d ny nx by0 bx0 data mask cov p est rms clip idw median fy fx fthr
+                              fill do_clip interp).
+
+Lemma by_pos : (0 < by_)%nat. Proof. now apply clipbox_pos. Qed.
+Lemma bx_pos : (0 < bx)%nat. Proof. now apply clipbox_pos. Qed.
+Lemma H_pos : (0 < H_)%nat. Proof. apply nmy_pos; [apply by_pos|exact Hny]. Qed.
+Lemma W_pos : (0 < W_)%nat. Proof. apply nmx_pos; [apply bx_pos|exact Hnx]. Qed.
+
+Lemma b2d_maps np nm bm rm b r :
+  b2d = Maps np nm bm rm b r ->
+  all_excluded ny nx by_ bx data mask cov p est rms clip = false /\
+  np = ngood_mesh ny nx by_ bx data mask cov p est rms clip /\
+  nm = nan_mask ny nx by_ bx data mask cov p est rms clip /\
+  bm = filter_grid median fy fx fthr (qminl (somes (concat bs))) (interp_grid idw bs) (interp_grid idw bs) /\
+  rm = filter_grid median fy fx fthr (qminl (somes (concat bs))) (interp_grid idw bs) (interp_grid idw rs) /\
+  b = calc_image ny nx cov fill do_clip interp bm /\
+  r = calc_image ny nx cov fill do_clip interp rm.
+Proof.
+  unfold background2d.
+  destruct (all_excluded ny nx by_ bx data mask cov p est rms clip); [discriminate|].
+  intros E. inversion E; subst. repeat split; reflexivity.
+Qed.
+
+Lemma b2d_allexcluded :
+  b2d = AllExcluded <-> all_excluded ny nx by_ bx data mask cov p est rms clip = true.
+Proof.
+  unfold background2d.
+  destruct (all_excluded ny nx by_ bx data mask cov p est rms clip); split; congruence.
+Qed.
+
+(* the error is raised iff every box is excluded by the rule *)
+Lemma all_excluded_iff :
+  all_excluded ny nx by_ bx data mask cov p est rms clip = true <->
+  forall i j, (i < H_)%nat -> (j < W_)%nat ->
+    excluded by_ bx p (length (bvals (cell i j))) = true.
+Proof.
+  rewrite all_excluded_nan, nan_mask_mk2. split.
+  - intros H i j Hi Hj. rewrite forallb_forall in H.
+    assert (Hr : In (nth i (mk2 H_ W_ (fun i j => excluded by_ bx p (length (bvals (cell i j))))) [])
+                    (mk2 H_ W_ (fun i j => excluded by_ bx p (length (bvals (cell i j)))))).
+    { apply nth_In. now rewrite mk2_length. }
+    specialize (H _ Hr). rewrite mk2_row in H by exact Hi. rewrite forallb_forall in H.
+    apply (H (excluded by_ bx p (length (bvals (cell i j))))).
+    apply in_map_iff. exists j. split; [reflexivity|apply in_seq; lia].
+  - intros H. apply forallb_forall. intros r Hr. apply forallb_forall. intros v Hv.
+    unfold mk2 in Hr. apply in_map_iff in Hr as (i & <- & Hi). apply in_map_iff in Hv as (j & <- & Hj).
+    apply in_seq in Hi, Hj. apply H; lia.
+Qed.
+
+Lemma bs_shape : shape H_ W_ bs.
+Proof. rewrite bkg_stats_mk2. apply shape_mk2. Qed.
+Lemma rs_shape : shape H_ W_ rs.
+Proof. rewrite rms_stats_mk2. apply shape_mk2. Qed.
+
+(* output_shape *)
+Lemma b2d_shape np nm bm rm b r :
+  b2d = Maps np nm bm rm b r ->
+  shape ny nx b /\ shape ny nx r /\
+  shape H_ W_ bm /\ shape H_ W_ rm /\ shape H_ W_ np /\ shape H_ W_ nm.
+Proof.
+  intros E. apply b2d_maps in E as (_ & -> & -> & -> & -> & -> & ->).
+  pose proof H_pos as HH.
+  assert (Hb : shape H_ W_ (interp_grid idw bs)) by (apply interp_grid_shape; [apply bs_shape|exact HH]).
+  assert (Hr : shape H_ W_ (interp_grid idw rs)) by (apply interp_grid_shape; [apply rs_shape|exact HH]).
+  split; [apply shape_mk2|]. split; [apply shape_mk2|].
+  split; [now apply filter_grid_shape|]. split; [now apply filter_grid_shape|].
+  split; [rewrite ngood_mesh_mk2|rewrite nan_mask_mk2]; apply shape_mk2.
+Qed.
+
+(* coverage_is_fill_exactly *)
+Lemma b2d_cov_fill np nm bm rm b r y x d :
+  b2d = Maps np nm bm rm b r ->
+  (y < ny)%nat -> (x < nx)%nat -> get2 false cov y x = true ->
+  get2 d b y x = fill /\ get2 d r y x = fill.
+Proof.
+  intros E Hy Hx Hc. apply b2d_maps in E as (_ & _ & _ & _ & _ & -> & ->).
+  split; now apply calc_image_cov.
+Qed.
+
+(* within_mesh_range (clip=True, the default of BkgZoomInterpolator) *)
+Lemma b2d_range np nm bm rm b r y x d :
+  b2d = Maps np nm bm rm b r -> do_clip = true ->
+  (y < ny)%nat -> (x < nx)%nat -> get2 false cov y x = false ->
+  (qminl (concat bm) <= get2 d b y x <= qmaxl (concat bm)) /\
+  (qminl (concat rm) <= get2 d r y x <= qmaxl (concat rm)).
+Proof.
+  intros E Hc Hy Hx Hcov. apply b2d_maps in E as (_ & _ & _ & _ & _ & -> & ->).
+  split; now apply calc_image_range.
+Qed.
+
+(* mesh cells: with filter_size = (1,1) the mesh is the estimator of the box where the
+   box is kept, and a value within the range of the kept boxes where it is excluded *)
+Lemma b2d_mesh_unfiltered np nm bm rm b r i j :
+  b2d = Maps np nm bm rm b r -> fy = 1%nat -> fx = 1%nat ->
+  (i < H_)%nat -> (j < W_)%nat ->
+  let vals := bvals (cell i j) in
+  get2 0%nat np i j = length vals /\
+  get2 false nm i j = excluded by_ bx p (length vals) /\
+  (excluded by_ bx p (length vals) = false ->
+     vals <> [] /\ get2 0 bm i j = est vals /\ get2 0 rm i j = rms vals) /\
+  (qminl (somes (concat bs)) <= get2 0 bm i j <= qmaxl (somes (concat bs))) /\
+  (qminl (somes (concat rs)) <= get2 0 rm i j <= qmaxl (somes (concat rs))).
+Proof.
+  intros E Efy Efx Hi Hj vals. apply b2d_maps in E as (_ & -> & -> & -> & -> & _ & _).
+  unfold filter_grid. rewrite Efy, Efx. cbn [Nat.eqb andb].
+  rewrite ngood_mesh_mk2, nan_mask_mk2, !mk2_get by assumption. fold vals.
+  rewrite bkg_stats_mk2, rms_stats_mk2.
+  pose proof H_pos as HH.
+  split; [unfold box_stat; fold vals; now destruct (excluded by_ bx p (length vals))|].
+  split; [reflexivity|].
+  split; [|split; apply interp_grid_range; assumption].
+  intros En. split; [|split].
+  - apply kept_nonempty in En; [|apply by_pos|apply bx_pos]. intros Ev. rewrite Ev in En. cbn in En. lia.
+  - apply interp_grid_kept; try assumption. unfold box_stat. fold vals. now rewrite En.
+  - apply interp_grid_kept; try assumption. unfold box_stat. fold vals. now rewrite En.
+Qed.
+End PipeProofs.
+
+(* mask_blind: the whole result depends on the data only through the pixels that are
+   neither masked nor coverage-masked *)
+Section PipeBlind.
+Variables (ny nx by0 bx0 : nat).
+Hypothesis Hny : (0 < ny)%nat.
+Hypothesis Hnx : (0 < nx)%nat.
+Hypothesis Hby0 : (0 < by0)%nat.
+Hypothesis Hbx0 : (0 < bx0)%nat.
+Variables data data' : img (option Z).
+Variables mask cov : img bool.
+Hypothesis Hagree : forall y x, (y < ny)%nat -> (x < nx)%nat ->
+  get2 false mask y x = false -> get2 false cov y x = false ->
+  get2 None data y x = get2 None data' y x.
+
+Lemma b2d_mask_blind p est rms clip idw median fy fx fthr fill do_clip interp :
+  background2d ny nx by0 bx0 data mask cov p est rms clip idw median fy fx fthr fill do_clip interp =
+  background2d ny nx by0 bx0 data' mask cov p est rms clip idw median fy fx fthr fill do_clip interp.
+Proof.
+  unfold background2d, all_excluded, nan_mask, ngood_mesh, bkg_stats, rms_stats.
+  rewrite (stat_mesh_blind ny nx (clipbox by0 ny) (clipbox bx0 nx)
+             (by_pos ny by0 Hny Hby0) (bx_pos nx bx0 Hnx Hbx0) data data' mask cov p est rms clip Hagree).
+  reflexivity.
+Qed.
+End PipeBlind.
+
+(* ================================================================== *)
+(* Part 4c: a constant image is reproduced exactly                      *)
+(* ================================================================== *)
+Lemma goodvals_in l v : In v (goodvals l) <-> In (Some v) l.
+Proof.
+  unfold goodvals. rewrite in_flat_map. split.
+  - intros ([w|] & Hin & H); cbn in H; [|destruct H]. destruct H as [->|[]]. exact Hin.
+  - intros H. exists (Some v). split; [exact H|now left].
+Qed.
+
+Lemma clipq_const lo hi v c : lo == c -> hi == c -> clipq lo hi v == c.
+Proof.
+  intros Hlo Hhi.
+  assert (Hle : lo <= hi) by (rewrite Hlo, Hhi; apply Qle_refl).
+  destruct (clipq_range lo hi v Hle) as [H1 H2]. apply Qle_antisym.
+  - now rewrite <- Hhi.
+  - now rewrite <- Hlo.
+Qed.
+
+Lemma shape_concat_in {A} (d : A) h w m v :
+  shape h w m -> In v (concat m) ->
+  exists i j, (i < h)%nat /\ (j < w)%nat /\ v = get2 d m i j.
+Proof.
+  intros [Hl Hr] Hin. apply in_concat in Hin as (r & Hrm & Hv).
+  destruct (In_nth m r [] Hrm) as (i & Hi & Ei).
+  destruct (In_nth r v d Hv) as (j & Hj & Ej).
+  exists i, j. rewrite <- Hl, <- (Hr r Hrm). repeat split; try assumption.
+  unfold get2. now rewrite Ei, Ej.
+Qed.
+
+Lemma shape_concat_nonempty {A} h w (m : img A) :
+  shape h w m -> (0 < h)%nat -> (0 < w)%nat -> concat m <> [].
+Proof.
+  intros [Hl Hr] Hh Hw. destruct m as [|r m]; [cbn in Hl; lia|].
+  assert (length r = w) by (apply Hr; now left). destruct r as [|a r]; [cbn in *; lia|].
+  cbn. discriminate.
+Qed.
+
+Section PipeConst.
+Variables (ny nx by0 bx0 : nat).
+Hypothesis Hny : (0 < ny)%nat.
+Hypothesis Hnx : (0 < nx)%nat.
+Hypothesis Hby0 : (0 < by0)%nat.
+Hypothesis Hbx0 : (0 < bx0)%nat.
+Variable data : img (option Z).
+Variables mask cov : img bool.
+Variable p : Q.
+Variables est rms : list Z -> Q.
+Variable clip : list Z -> list Z.
+Variable idw : img (option Q) -> nat -> nat -> Q.
+Variable median : list Q -> Q.
+Variables (fy fx : nat) (fthr : option Q).
+Hypothesis Hfy : (0 < fy)%nat.
+Hypothesis Hfx : (0 < fx)%nat.
+Variables (fill : Q) (do_clip : bool).
+Variable interp : img Q -> nat -> nat -> Q.
+Variable c : Z.
+(* every pixel that is not masked / coverage-masked / non-finite has the value c *)
+Hypothesis Hconst : forall y x, (y < ny)%nat -> (x < nx)%nat ->
+  pix data mask cov y x = None \/ pix data mask cov y x = Some c.
+(* sigma clipping only removes values *)
+Hypothesis Hclip : forall l v, In v (clip l) -> In v l.
+(* the estimators return the constant / zero on a non-empty constant sample *)
+Hypothesis Hest : forall l, l <> [] -> (forall v, In v l -> v = c) -> est l == inject_Z c.
+Hypothesis Hrms : forall l, l <> [] -> (forall v, In v l -> v = c) -> rms l == 0.
+(* the window median of a non-empty constant sample is the constant *)
+Hypothesis Hmed : forall q l, l <> [] -> allq q l -> median l == q.
+
+Notation by_ := (clipbox by0 ny).
+Notation bx := (clipbox bx0 nx).
+Notation H_ := (nmy ny by_).
+Notation W_ := (nmx nx bx).
+Notation cell := (cell_coords ny nx by_ bx).
+Notation bvals := (box_vals data mask cov clip).
+Notation bstat := (box_stat by_ bx data mask cov p est rms clip).
+Notation bs := (bkg_stats ny nx by_ bx data mask cov p est rms clip).
+Notation rs := (rms_stats ny nx by_ bx data mask cov p est rms clip).
+
+Lemma vals_const i j v :
+  (i < H_)%nat -> (j < W_)%nat -> In v (bvals (cell i j)) -> v = c.
+Proof.
+  intros Hi Hj Hin. unfold box_vals in Hin. apply Hclip, goodvals_in in Hin.
+  apply in_map_iff in Hin as (yx & E & Hyx).
+  destruct (cell_coords_in_image ny nx by_ bx (by_pos ny by0 Hny Hby0) (bx_pos nx bx0 Hnx Hbx0)
+              i j yx Hi Hj Hyx) as [Hy Hx].
+  destruct (Hconst _ _ Hy Hx) as [E'|E']; congruence.
+Qed.
+
+(* generic: a mesh of optional values that are all == q (with at least one present) is
+   filled, filtered and upscaled to the constant q *)
+Lemma const_chain (q : Q) (f : nat -> nat -> option Q) (sel : img Q) minb y x d :
+  (forall i j v, (i < H_)%nat -> (j < W_)%nat -> f i j = Some v -> v == q) ->
+  (exists i j, (i < H_)%nat /\ (j < W_)%nat /\ f i j <> None) ->
+  let m := filter_grid median fy fx fthr minb sel (interp_grid idw (mk2 H_ W_ f)) in
+  (forall i j, (i < H_)%nat -> (j < W_)%nat -> get2 0 m i j == q) /\
+  ((y < ny)%nat -> (x < nx)%nat -> get2 false cov y x = false ->
+     get2 d (calc_image ny nx cov fill do_clip interp m) y x == q).
+Proof.
+  intros Hq (i0 & j0 & Hi0 & Hj0 & Hsome) m.
+  pose proof (H_pos ny by0 Hny Hby0) as HH. pose proof (W_pos nx bx0 Hnx Hbx0) as HW.
+  set (good := somes (concat (mk2 H_ W_ f))).
+  assert (Hgood : allq q good).
+  { intros v Hv. apply somes_in, mk2_in in Hv as (i & j & Hi & Hj & E). symmetry in E. eauto. }
+  assert (Hne : good <> []).
+  { destruct (f i0 j0) as [v|] eqn:E; [|congruence].
+    assert (Hin : In v good) by (apply somes_in; rewrite <- E; now apply mk2_in_conv).
+    intros E'. rewrite E' in Hin. destruct Hin. }
+  assert (Hm : forall i j, (i < H_)%nat -> (j < W_)%nat -> get2 0 m i j == q).
+  { unfold m. rewrite interp_grid_mk2 by exact HH.
+    apply (filter_grid_pointwise median fy fx fthr Hfy Hfx (fun v => v == q)); try assumption.
+    - intros l Hl Hall. now apply Hmed.
+    - intros i j Hi Hj. fold good. destruct (f i j) as [v|] eqn:E; [eauto|].
+      apply clipq_const; [now apply qminl_const|now apply qmaxl_const]. }
+  split; [exact Hm|]. intros Hy Hx Hc.
+  assert (Hsh : shape H_ W_ m).
+  { unfold m. apply filter_grid_shape; [|exact HH]. apply interp_grid_shape; [apply shape_mk2|exact HH]. }
+  apply calc_image_const; try assumption.
+  - now apply (shape_concat_nonempty H_ W_).
+  - intros v Hv. destruct (shape_concat_in 0 H_ W_ m v Hsh Hv) as (i & j & Hi & Hj & ->). now apply Hm.
+Qed.
+
+(* constant_image_exact *)
+Lemma b2d_constant np nm bm rm b r :
+  background2d ny nx by0 bx0 data mask cov p est rms clip idw median fy fx fthr fill do_clip interp
+    = Maps np nm bm rm b r ->
+  (forall i j, (i < H_)%nat -> (j < W_)%nat ->
+     get2 0 bm i j == inject_Z c /\ get2 0 rm i j == 0) /\
+  (forall y x d, (y < ny)%nat -> (x < nx)%nat ->
+     if get2 false cov y x then get2 d b y x = fill /\ get2 d r y x = fill
+     else get2 d b y x == inject_Z c /\ get2 d r y x == 0).
+Proof.
+  intros E. pose proof E as E0.
+  apply (b2d_maps ny nx by0 bx0) in E as (Hall & _ & _ & -> & -> & -> & ->).
+  pose proof (by_pos ny by0 Hny Hby0) as Hby. pose proof (bx_pos nx bx0 Hnx Hbx0) as Hbx.
+  (* at least one kept cell *)
+  unfold all_excluded in Hall. rewrite bkg_stats_mk2 in Hall.
+  apply mk2_forallb_false in Hall as (i0 & j0 & Hi0 & Hj0 & Hk).
+  assert (Hkept : forall i j, (i < H_)%nat -> (j < W_)%nat ->
+            fst (fst (bstat (cell i j))) <> None \/ snd (fst (bstat (cell i j))) <> None ->
+            bvals (cell i j) <> [] /\
+            fst (fst (bstat (cell i j))) = Some (est (bvals (cell i j))) /\
+            snd (fst (bstat (cell i j))) = Some (rms (bvals (cell i j)))).
+  { intros i j Hi Hj Hs. unfold box_stat in *.
+    destruct (excluded by_ bx p (length (bvals (cell i j)))) eqn:Ex; cbn in *; [tauto|].
+    split; [|split; reflexivity]. apply kept_nonempty in Ex; try assumption.
+    intros Ev. rewrite Ev in Ex. cbn in Ex. lia. }
+  assert (Hk0 : fst (fst (bstat (cell i0 j0))) <> None).
+  { intros Ek. rewrite Ek in Hk. discriminate. }
+  destruct (Hkept i0 j0 Hi0 Hj0 (or_introl Hk0)) as (_ & _ & Hr0).
+  rewrite bkg_stats_mk2, rms_stats_mk2.
+  split.
+  - intros i j Hi Hj. split.
+    + apply (const_chain (inject_Z c) _ _ _ 0%nat 0%nat 0); try assumption.
+      * intros i' j' v Hi' Hj' Ev.
+        destruct (Hkept i' j' Hi' Hj') as (Hne & Eb & _); [left; congruence|].
+        rewrite Eb in Ev. inversion Ev; subst. apply Hest; [exact Hne|].
+        intros w Hw. now apply (vals_const i' j').
+      * exists i0, j0. auto.
+    + apply (const_chain 0 _ _ _ 0%nat 0%nat 0); try assumption.
+      * intros i' j' v Hi' Hj' Ev.
+        destruct (Hkept i' j' Hi' Hj') as (Hne & _ & Er); [right; congruence|].
+        rewrite Er in Ev. inversion Ev; subst. apply Hrms; [exact Hne|].
+        intros w Hw. now apply (vals_const i' j').
+      * exists i0, j0. repeat split; try assumption. rewrite Hr0. discriminate.
+  - intros y x d Hy Hx. destruct (get2 false cov y x) eqn:Hc.
+    + split; now apply calc_image_cov.
+    + split.
+      * apply (const_chain (inject_Z c)); try assumption.
+        -- intros i' j' v Hi' Hj' Ev.
+           destruct (Hkept i' j' Hi' Hj') as (Hne & Eb & _); [left; congruence|].
+           rewrite Eb in Ev. inversion Ev; subst. apply Hest; [exact Hne|].
+           intros w Hw. now apply (vals_const i' j').
+        -- exists i0, j0. auto.
+      * apply (const_chain 0); try assumption.
+        -- intros i' j' v Hi' Hj' Ev.
+           destruct (Hkept i' j' Hi' Hj') as (Hne & _ & Er); [right; congruence|].
+           rewrite Er in Ev. inversion Ev; subst. apply Hrms; [exact Hne|].
+           intros w Hw. now apply (vals_const i' j').
+        -- exists i0, j0. repeat split; try assumption. rewrite Hr0. discriminate.
+Qed.
+End PipeConst.
+
+(* ================================================================== *)
+(* Part 4d: the concrete estimators of the correspondence satisfy the    *)
+(*          hypotheses of the constant-image theorem                     *)
+(* ================================================================== *)
+Lemma fold_add_acc l a : fold_left Z.add l a = (a + fold_left Z.add l 0)%Z.
+Proof.
+  revert a. induction l as [|x l IH]; intros a; cbn [fold_left]; [lia|].
+  rewrite (IH (a + x)%Z), (IH (0 + x)%Z). lia.
+Qed.
+Lemma zsum_cons x l : zsum (x :: l) = (x + zsum l)%Z.
+Proof. unfold zsum. cbn [fold_left]. rewrite fold_add_acc. lia. Qed.
+
+Lemma zsum_const c l : (forall v, In v l -> v = c) -> zsum l = (c * Z.of_nat (length l))%Z.
+Proof.
+  induction l as [|x l IH]; intros H; [cbn; lia|].
+  rewrite zsum_cons, IH by (intros v Hv; apply H; now right).
+  rewrite (H x) by now left. cbn [length]. lia.
+Qed.
+Lemma zsum_sq_const c l :
+  (forall v, In v l -> v = c) -> zsum (map (fun x => x * x)%Z l) = (c * c * Z.of_nat (length l))%Z.
+Proof.
+  induction l as [|x l IH]; intros H; [cbn; lia|].
+  cbn [map]. rewrite zsum_cons, IH by (intros v Hv; apply H; now right).
+  rewrite (H x) by now left. cbn [length]. lia.
+Qed.
+
+Lemma pos_of_nat_Z n : (n <> 0)%nat -> Z.pos (Pos.of_nat n) = Z.of_nat n.
+Proof. intros H. rewrite <- positive_nat_Z, Nat2Pos.id by exact H. reflexivity. Qed.
+
+Lemma qmean_const c l : l <> [] -> (forall v, In v l -> v = c) -> qmean l == inject_Z c.
+Proof.
+  intros Hn H. unfold qmean. rewrite (zsum_const c l H). unfold Qeq, inject_Z. cbn [Qnum Qden].
+  rewrite pos_of_nat_Z by (destruct l; [congruence|cbn; lia]). lia.
+Qed.
+Lemma qvar_const c l : l <> [] -> (forall v, In v l -> v = c) -> qvar l == 0.
+Proof.
+  intros Hn H. unfold qvar. rewrite (zsum_const c l H), (zsum_sq_const c l H).
+  unfold Qeq. cbn [Qnum Qden]. lia.
+Qed.
+
+Lemma qinsert_in a l x : In x (qinsert a l) -> x = a \/ In x l.
+Proof.
+  induction l as [|b l IH]; cbn [qinsert].
+  - intros [<-|[]]. now left.
+  - destruct (Qle_bool a b).
+    + intros [<-|H]; [now left|now right].
+    + intros [<-|H]; [right; now left|]. destruct (IH H); [now left|right; now right].
+Qed.
+Lemma qinsert_length a l : length (qinsert a l) = S (length l).
+Proof.
+  induction l as [|b l IH]; cbn [qinsert length]; [reflexivity|].
+  destruct (Qle_bool a b); cbn [length]; now rewrite ?IH.
+Qed.
+Lemma qsort_cons a l : qsort (a :: l) = qinsert a (qsort l).
+Proof. reflexivity. Qed.
+Lemma qsort_in l x : In x (qsort l) -> In x l.
+Proof.
+  induction l as [|a l IH]; [auto|]. rewrite qsort_cons. intros H.
+  apply qinsert_in in H as [->|H]; [now left|right; auto].
+Qed.
+Lemma qsort_length l : length (qsort l) = length l.
+Proof. induction l as [|a l IH]; [reflexivity|]. rewrite qsort_cons, qinsert_length, IH. reflexivity. Qed.
+
+Lemma qmedian_const q l : l <> [] -> allq q l -> qmedian l == q.
+Proof.
+  intros Hn H. unfold qmedian.
+  assert (Hlen : (0 < length (qsort l))%nat).
+  { rewrite qsort_length. destruct l; [congruence|cbn; lia]. }
+  assert (Hnth : forall k, (k < length (qsort l))%nat -> nth k (qsort l) 0 == q).
+  { intros k Hk. apply H, qsort_in, nth_In, Hk. }
+  assert (Hhalf : (length (qsort l) / 2 < length (qsort l))%nat) by (apply Nat.div_lt; lia).
+  destruct (Nat.even (length (qsort l))).
+  - rewrite (Hnth (length (qsort l) / 2 - 1)%nat), (Hnth (length (qsort l) / 2)%nat) by lia. field.
+  - now apply Hnth.
+Qed.
+Lemma qmedianZ_const c l : l <> [] -> (forall v, In v l -> v = c) -> qmedianZ l == inject_Z c.
+Proof.
+  intros Hn H. unfold qmedianZ. apply qmedian_const.
+  - destruct l; [congruence|discriminate].
+  - intros v Hv. apply in_map_iff in Hv as (z & <- & Hz). now rewrite (H z Hz).
+Qed.
+Lemma est_of_const estk c l :
+  l <> [] -> (forall v, In v l -> v = c) -> est_of estk l == inject_Z c.
+Proof.
+  intros Hn H. unfold est_of. destruct (estk =? 0)%Z; [now apply qmean_const|now apply qmedianZ_const].
+Qed.
+
+(* ================================================================== *)
+(* Part 5: shift / scale equivariance, relationally                      *)
+(*   arel a b u v  :=  v == a*u + b   (a > 0)                            *)
+(* ================================================================== *)
+Definition arel (a b u v : Q) : Prop := v == a * u + b.
+Inductive orel (R : Q -> Q -> Prop) : option Q -> option Q -> Prop :=
+| orel_none : orel R None None
+| orel_some u v : R u v -> orel R (Some u) (Some v).
+Definition irel {A B} (R : A -> B -> Prop) (m : img A) (m' : img B) : Prop :=
+  Forall2 (Forall2 R) m m'.
+
+Lemma Forall2_map_same {A B C} (R : B -> C -> Prop) (f : A -> B) (g : A -> C) l :
+  (forall x, In x l -> R (f x) (g x)) -> Forall2 R (map f l) (map g l).
+Proof.
+  induction l as [|x l IH]; intros H; cbn; constructor.
+  - apply H. now left.
+  - apply IH. intros y Hy. apply H. now right.
+Qed.
+Lemma Forall2_flat_map_same {A B C} (R : B -> C -> Prop) (f : A -> list B) (g : A -> list C) l :
+  (forall x, In x l -> Forall2 R (f x) (g x)) -> Forall2 R (flat_map f l) (flat_map g l).
+Proof.
+  induction l as [|x l IH]; intros H; cbn; [constructor|]. apply Forall2_app.
+  - apply H. now left.
+  - apply IH. intros y Hy. apply H. now right.
+Qed.
+Lemma Forall2_concat {A B} (R : A -> B -> Prop) m m' :
+  Forall2 (Forall2 R) m m' -> Forall2 R (concat m) (concat m').
+Proof. induction 1; cbn; [constructor|now apply Forall2_app]. Qed.
+Lemma Forall2_somes R l l' : Forall2 (orel R) l l' -> Forall2 R (somes l) (somes l').
+Proof.
+  unfold somes. induction 1 as [|o o' l l' Ho _ IH]; cbn; [constructor|].
+  destruct Ho; cbn; [exact IH|now constructor].
+Qed.
+Lemma Forall2_nonempty {A B} (R : A -> B -> Prop) l l' : Forall2 R l l' -> l <> [] -> l' <> [].
+Proof. destruct 1; [congruence|discriminate]. Qed.
+
+Lemma mk2_irel {A B} (R : A -> B -> Prop) h w f g :
+  (forall i j, (i < h)%nat -> (j < w)%nat -> R (f i j) (g i j)) -> irel R (mk2 h w f) (mk2 h w g).
+Proof.
+  intros H. unfold irel, mk2. apply Forall2_map_same. intros i Hi. apply in_seq in Hi.
+  apply Forall2_map_same. intros j Hj. apply in_seq in Hj. apply H; lia.
+Qed.
+
+Section AffineOrder.
+Variables a b : Q.
+Hypothesis Ha : 0 < a.
+
+Lemma aff_le u v : Qle_bool (a * u + b) (a * v + b) = Qle_bool u v.
+Proof.
+  destruct (Qle_bool u v) eqn:E.
+  - apply Qle_bool_iff in E. apply Qle_bool_iff. nra.
+  - apply Qle_bool_false in E. destruct (Qle_bool (a * u + b) (a * v + b)) eqn:E'; [|reflexivity].
+    apply Qle_bool_iff in E'. exfalso. nra.
+Qed.
+
+Lemma arel_le u u' v v' : arel a b u u' -> arel a b v v' -> Qle_bool u' v' = Qle_bool u v.
+Proof. unfold arel. intros -> ->. apply aff_le. Qed.
+Lemma arel_lt u u' v v' : arel a b u u' -> arel a b v v' -> Qlt_bool u' v' = Qlt_bool u v.
+Proof. intros Hu Hv. unfold Qlt_bool. now rewrite (arel_le v v' u u'). Qed.
+Lemma arel_eqb u u' v v' : arel a b u u' -> arel a b v v' -> Qeq_bool u' v' = Qeq_bool u v.
+Proof.
+  unfold arel. intros -> ->. destruct (Qeq_bool u v) eqn:E.
+  - apply Qeq_bool_iff in E. apply Qeq_bool_iff. now rewrite E.
+  - destruct (Qeq_bool (a * u + b) (a * v + b)) eqn:E'; [|reflexivity].
+    apply Qeq_bool_iff in E'. assert (u == v) by nra. apply Qeq_bool_iff in H. congruence.
+Qed.
+
+Lemma arel_qmin2 u u' v v' : arel a b u u' -> arel a b v v' -> arel a b (qmin2 u v) (qmin2 u' v').
+Proof. intros Hu Hv. unfold qmin2. rewrite (arel_le u u' v v' Hu Hv). now destruct (Qle_bool u v). Qed.
+Lemma arel_qmax2 u u' v v' : arel a b u u' -> arel a b v v' -> arel a b (qmax2 u v) (qmax2 u' v').
+Proof. intros Hu Hv. unfold qmax2. rewrite (arel_le u u' v v' Hu Hv). now destruct (Qle_bool u v). Qed.
+
+Lemma arel_fold (op : Q -> Q -> Q) :
+  (forall u u' v v', arel a b u u' -> arel a b v v' -> arel a b (op u v) (op u' v')) ->
+  forall r r', Forall2 (arel a b) r r' -> forall x x', arel a b x x' ->
+  arel a b (fold_left op r x) (fold_left op r' x').
+Proof. intros Hop r r' H. induction H; intros x0 x0' Hx; cbn [fold_left]; auto. Qed.
+
+Lemma arel_qminl l l' : Forall2 (arel a b) l l' -> l <> [] -> arel a b (qminl l) (qminl l').
+Proof.
+  destruct 1 as [|x x' r r' Hx Hr]; [congruence|]. intros _. cbn [qminl].
+  apply arel_fold; auto using arel_qmin2.
+Qed.
+Lemma arel_qmaxl l l' : Forall2 (arel a b) l l' -> l <> [] -> arel a b (qmaxl l) (qmaxl l').
+Proof.
+  destruct 1 as [|x x' r r' Hx Hr]; [congruence|]. intros _. cbn [qmaxl].
+  apply arel_fold; auto using arel_qmax2.
+Qed.
+
+Lemma arel_clipq lo lo' hi hi' v v' :
+  arel a b lo lo' -> arel a b hi hi' -> arel a b v v' -> arel a b (clipq lo hi v) (clipq lo' hi' v').
+Proof.
+  intros Hlo Hhi Hv. unfold clipq.
+  rewrite (arel_le v v' lo lo' Hv Hlo), (arel_le hi hi' v v' Hhi Hv).
+  destruct (Qle_bool v lo); [exact Hlo|]. now destruct (Qle_bool hi v).
+Qed.
+End AffineOrder.
+
+(* hypotheses on the library numerics: each is equivariant under v -> a*v + b, a > 0 *)
+Definition idw_equivariant (idw : img (option Q) -> nat -> nat -> Q) : Prop :=
+  forall a b, 0 < a -> forall g g', irel (orel (arel a b)) g g' -> somes (concat g) <> [] ->
+  forall i j, arel a b (idw g i j) (idw g' i j).
+Definition median_equivariant (median : list Q -> Q) : Prop :=
+  forall a b, 0 < a -> forall l l', Forall2 (arel a b) l l' -> l <> [] ->
+  arel a b (median l) (median l').
+Definition interp_equivariant (interp : img Q -> nat -> nat -> Q) : Prop :=
+  forall a b, 0 < a -> forall m m', irel (arel a b) m m' -> concat m <> [] ->
+  forall y x, arel a b (interp m y x) (interp m' y x).
+
+Section StageRel.
+Variable idw : img (option Q) -> nat -> nat -> Q.
+Variable median : list Q -> Q.
+Variable interp : img Q -> nat -> nat -> Q.
+Hypothesis Hidw : idw_equivariant idw.
+Hypothesis Hmed : median_equivariant median.
+Hypothesis Hint : interp_equivariant interp.
+Variables (fy fx : nat).
+Hypothesis Hfy : (0 < fy)%nat.
+Hypothesis Hfx : (0 < fx)%nat.
+
+Lemma good_rel a b h w f f' :
+  (forall i j, (i < h)%nat -> (j < w)%nat -> orel (arel a b) (f i j) (f' i j)) ->
+  Forall2 (arel a b) (somes (concat (mk2 h w f))) (somes (concat (mk2 h w f'))).
+Proof. intros H. apply Forall2_somes, Forall2_concat, mk2_irel, H. Qed.
+
+Lemma interp_grid_rel a b h w f f' :
+  0 < a -> (0 < h)%nat ->
+  (forall i j, (i < h)%nat -> (j < w)%nat -> orel (arel a b) (f i j) (f' i j)) ->
+  somes (concat (mk2 h w f)) <> [] ->
+  exists F F', interp_grid idw (mk2 h w f) = mk2 h w F /\ interp_grid idw (mk2 h w f') = mk2 h w F' /\
+    forall i j, (i < h)%nat -> (j < w)%nat -> arel a b (F i j) (F' i j).
+Proof.
+  intros Ha Hh Hf Hne. rewrite !interp_grid_mk2 by exact Hh.
+  eexists. eexists. split; [reflexivity|]. split; [reflexivity|].
+  intros i j Hi Hj. cbv beta. pose proof (good_rel a b h w f f' Hf) as Hg.
+  destruct (Hf i j Hi Hj) as [|u v Huv]; [|exact Huv].
+  apply arel_clipq; try assumption.
+  - now apply arel_qminl.
+  - now apply arel_qmaxl.
+  - apply Hidw; try assumption. apply mk2_irel, Hf.
+Qed.
+
+Lemma window_rel a b h w g g' i j :
+  (forall i j, (i < h)%nat -> (j < w)%nat -> arel a b (g i j) (g' i j)) ->
+  Forall2 (arel a b) (window fy fx h w (mk2 h w g) i j) (window fy fx h w (mk2 h w g') i j).
+Proof.
+  intros Hg. unfold window. apply Forall2_flat_map_same. intros y Hy. apply in_seq in Hy.
+  apply Forall2_map_same. intros x Hx. apply in_seq in Hx.
+  rewrite !mk2_get by lia. apply Hg; lia.
+Qed.
+
+(* selector (background) related by (a,b); filtered data related by (a2,b2) *)
+Lemma filter_grid_rel a b a2 b2 h w (t t' : option Q) minb minb' s s' g g' :
+  0 < a -> 0 < a2 -> (0 < h)%nat ->
+  match t, t' with None, None => True | Some u, Some u' => arel a b u u' | _, _ => False end ->
+  arel a b minb minb' ->
+  (forall i j, (i < h)%nat -> (j < w)%nat -> arel a b (s i j) (s' i j)) ->
+  (forall i j, (i < h)%nat -> (j < w)%nat -> arel a2 b2 (g i j) (g' i j)) ->
+  irel (arel a2 b2) (filter_grid median fy fx t minb (mk2 h w s) (mk2 h w g))
+                    (filter_grid median fy fx t' minb' (mk2 h w s') (mk2 h w g')).
+Proof.
+  intros Ha Ha2 Hh Ht Hmin Hs Hg.
+  assert (Hwin : forall i j, (i < h)%nat -> (j < w)%nat ->
+            arel a2 b2 (median (window fy fx h w (mk2 h w g) i j))
+                       (median (window fy fx h w (mk2 h w g') i j))).
+  { intros i j Hi Hj. apply Hmed; [exact Ha2|now apply window_rel|].
+    intros E. pose proof (window_center fy fx Hfy Hfx h w (mk2 h w g) i j Hi Hj) as Hc.
+    rewrite E in Hc. destruct Hc. }
+  unfold filter_grid, full_filter, selective_filter.
+  rewrite !mk2_length, !mk2_width by exact Hh.
+  destruct ((fy =? 1)%nat && (fx =? 1)%nat); [now apply mk2_irel|].
+  destruct t as [u|], t' as [u'|]; try contradiction; [|now apply mk2_irel].
+  rewrite (arel_lt a b Ha u u' minb minb' Ht Hmin).
+  destruct (Qlt_bool u minb); [now apply mk2_irel|].
+  apply mk2_irel. intros i j Hi Hj. rewrite !mk2_get by assumption.
+  rewrite (arel_lt a b Ha u u' (s i j) (s' i j) Ht (Hs i j Hi Hj)).
+  destruct (Qlt_bool u (s i j)); auto.
+Qed.
+
+Lemma calc_image_rel a b ny nx cov fill do_clip m m' y x d :
+  0 < a -> irel (arel a b) m m' -> concat m <> [] ->
+  (y < ny)%nat -> (x < nx)%nat -> get2 false cov y x = false ->
+  arel a b (get2 d (calc_image ny nx cov fill do_clip interp m) y x)
+           (get2 d (calc_image ny nx cov fill do_clip interp m') y x).
+Proof.
+  intros Ha Hm Hne Hy Hx Hc. unfold calc_image. rewrite !mk2_get by assumption. rewrite Hc.
+  pose proof (Forall2_concat _ _ _ Hm) as Hcc.
+  pose proof (arel_qminl a b Ha _ _ Hcc Hne) as Hlo.
+  pose proof (arel_qmaxl a b Ha _ _ Hcc Hne) as Hhi.
+  rewrite (arel_eqb a b Ha _ _ _ _ Hhi Hlo).
+  destruct (Qeq_bool (qmaxl (concat m)) (qminl (concat m))); [exact Hlo|].
+  destruct do_clip.
+  - apply arel_clipq; try assumption. now apply Hint.
+  - now apply Hint.
+Qed.
+End StageRel.
+
+Lemma get2_map_option (f : Z -> Z) (data : img (option Z)) y x :
+  get2 None (map (map (option_map f)) data) y x = option_map f (get2 None data y x).
+Proof.
+  unfold get2.
+  change (@nil (option Z)) with (map (option_map f) []) at 1. rewrite map_nth.
+  change (@None Z) with (option_map f None) at 1. now rewrite map_nth.
+Qed.
+
+Lemma snd_box_stat by_ bx data mask cov p est rms clip coords :
+  snd (box_stat by_ bx data mask cov p est rms clip coords) =
+  length (box_vals data mask cov clip coords).
+Proof. unfold box_stat. now destruct (excluded by_ bx p (length (box_vals data mask cov clip coords))). Qed.
+
+Section PipeEquiv.
+Variables (ny nx by0 bx0 : nat).
+Hypothesis Hny : (0 < ny)%nat.
+Hypothesis Hnx : (0 < nx)%nat.
+Hypothesis Hby0 : (0 < by0)%nat.
+Hypothesis Hbx0 : (0 < bx0)%nat.
+Variable data : img (option Z).
+Variables mask cov : img bool.
+Variable p : Q.
+Variables est rms : list Z -> Q.
+Variable clip : list Z -> list Z.
+Variable idw : img (option Q) -> nat -> nat -> Q.
+Variable median : list Q -> Q.
+Variables (fy fx : nat) (fthr : option Q).
+Hypothesis Hfy : (0 < fy)%nat.
+Hypothesis Hfx : (0 < fx)%nat.
+Variables (fill : Q) (do_clip : bool).
+Variable interp : img Q -> nat -> nat -> Q.
+(* the transformation of the data: v -> k*v + c with k > 0 (in the integer scale of the model) *)
+Variables k c : Z.
+Hypothesis Hk : (0 < k)%Z.
+Let f (v : Z) : Z := (k * v + c)%Z.
+Let K : Q := inject_Z k.
+Let C : Q := inject_Z c.
+(* hypotheses on the numerics that are not modelled *)
+Hypothesis Hclip : forall l, clip (map f l) = map f (clip l).
+Hypothesis Hest : forall l, l <> [] -> est (map f l) == K * est l + C.
+Hypothesis Hrms : forall l, l <> [] -> rms (map f l) == K * rms l.
+Hypothesis Hidw : idw_equivariant idw.
+Hypothesis Hmed : median_equivariant median.
+Hypothesis Hint : interp_equivariant interp.
+
+Let data' : img (option Z) := map (map (option_map f)) data.
+Let fthr' : option Q := option_map (fun t => K * t + C) fthr.
+
+Notation by_ := (clipbox by0 ny).
+Notation bx := (clipbox bx0 nx).
+Notation H_ := (nmy ny by_).
+Notation W_ := (nmx nx bx).
+Notation cell := (cell_coords ny nx by_ bx).
+
+Lemma K_pos : 0 < K.
+Proof. unfold K, Qlt, inject_Z. cbn. lia. Qed.
+
+Lemma pix_equiv y x : pix data' mask cov y x = option_map f (pix data mask cov y x).
+Proof. unfold pix. destruct (masked mask cov y x); [reflexivity|]. apply get2_map_option. Qed.
+
+Lemma bvals_equiv coords :
+  box_vals data' mask cov clip coords = map f (box_vals data mask cov clip coords).
+Proof.
+  unfold box_vals.
+  replace (map (fun c0 => pix data' mask cov (fst c0) (snd c0)) coords)
+    with (map (option_map f) (map (fun c0 => pix data mask cov (fst c0) (snd c0)) coords)).
+  - now rewrite goodvals_map, Hclip.
+  - rewrite map_map. apply map_ext. intros c0. now rewrite pix_equiv.
+Qed.
+
+Lemma nan_mask_equiv :
+  nan_mask ny nx by_ bx data' mask cov p est rms clip = nan_mask ny nx by_ bx data mask cov p est rms clip.
+Proof.
+  rewrite !nan_mask_mk2. apply mk2_ext. intros i j _ _. now rewrite bvals_equiv, map_length.
+Qed.
+Lemma ngood_equiv :
+  ngood_mesh ny nx by_ bx data' mask cov p est rms clip = ngood_mesh ny nx by_ bx data mask cov p est rms clip.
+Proof.
+  rewrite !ngood_mesh_mk2. apply mk2_ext. intros i j _ _.
+  now rewrite !snd_box_stat, bvals_equiv, map_length.
+Qed.
+Lemma all_excluded_equiv :
+  all_excluded ny nx by_ bx data' mask cov p est rms clip = all_excluded ny nx by_ bx data mask cov p est rms clip.
+Proof. now rewrite !all_excluded_nan, nan_mask_equiv. Qed.
+
+Lemma stat_equiv coords :
+  orel (arel K C) (fst (fst (box_stat by_ bx data mask cov p est rms clip coords)))
+                  (fst (fst (box_stat by_ bx data' mask cov p est rms clip coords))) /\
+  orel (arel K 0) (snd (fst (box_stat by_ bx data mask cov p est rms clip coords)))
+                  (snd (fst (box_stat by_ bx data' mask cov p est rms clip coords))).
+Proof.
+  unfold box_stat. rewrite bvals_equiv, map_length.
+  destruct (excluded by_ bx p (length (box_vals data mask cov clip coords))) eqn:E; cbn.
+  - split; constructor.
+  - assert (Hne : box_vals data mask cov clip coords <> []).
+    { unfold excluded in E. apply orb_false_iff in E as [_ E]. apply Nat.eqb_neq in E.
+      intros E'. rewrite E' in E. now cbn in E. }
+    split; constructor; unfold arel.
+    + now apply Hest.
+    + rewrite Hrms by exact Hne. ring.
+Qed.
+
+(* shift_scale_equivariant_partial *)
+Lemma b2d_equivariant :
+  (background2d ny nx by0 bx0 data mask cov p est rms clip idw median fy fx fthr fill do_clip interp
+     = AllExcluded <->
+   background2d ny nx by0 bx0 data' mask cov p est rms clip idw median fy fx fthr' fill do_clip interp
+     = AllExcluded) /\
+  forall np nm bm rm b r,
+    background2d ny nx by0 bx0 data mask cov p est rms clip idw median fy fx fthr fill do_clip interp
+      = Maps np nm bm rm b r ->
+    exists bm' rm' b' r',
+      background2d ny nx by0 bx0 data' mask cov p est rms clip idw median fy fx fthr' fill do_clip interp
+        = Maps np nm bm' rm' b' r' /\
+      irel (arel K C) bm bm' /\ irel (arel K 0) rm rm' /\
+      forall y x d, (y < ny)%nat -> (x < nx)%nat ->
+        if get2 false cov y x
+        then (get2 d b y x = fill /\ get2 d b' y x = fill) /\ (get2 d r y x = fill /\ get2 d r' y x = fill)
+        else arel K C (get2 d b y x) (get2 d b' y x) /\ arel K 0 (get2 d r y x) (get2 d r' y x).
+Proof.
+  split.
+  { rewrite !b2d_allexcluded. now rewrite all_excluded_equiv. }
+  intros np nm bm rm b r E.
+  apply (b2d_maps ny nx by0 bx0) in E as (Hall & -> & -> & -> & -> & -> & ->).
+  pose proof (H_pos ny by0 Hny Hby0) as HH. pose proof (W_pos nx bx0 Hnx Hbx0) as HW.
+  pose proof K_pos as HK.
+  unfold background2d. rewrite all_excluded_equiv, Hall, ngood_equiv, nan_mask_equiv.
+  do 4 eexists. split; [reflexivity|].
+  (* a kept cell exists *)
+  pose proof Hall as Hall0. unfold all_excluded in Hall0. rewrite bkg_stats_mk2 in Hall0.
+  apply mk2_forallb_false in Hall0 as (i0 & j0 & Hi0 & Hj0 & Hk0).
+  rewrite !bkg_stats_mk2, !rms_stats_mk2.
+  set (fb := fun i j => fst (fst (box_stat by_ bx data mask cov p est rms clip (cell i j)))).
+  set (fb' := fun i j => fst (fst (box_stat by_ bx data' mask cov p est rms clip (cell i j)))).
+  set (fr := fun i j => snd (fst (box_stat by_ bx data mask cov p est rms clip (cell i j)))).
+  set (fr' := fun i j => snd (fst (box_stat by_ bx data' mask cov p est rms clip (cell i j)))).
+  change (isnone (fb i0 j0) = false) in Hk0.
+  assert (Hfb : forall i j, (i < H_)%nat -> (j < W_)%nat -> orel (arel K C) (fb i j) (fb' i j))
+    by (intros i j _ _; apply stat_equiv).
+  assert (Hfr : forall i j, (i < H_)%nat -> (j < W_)%nat -> orel (arel K 0) (fr i j) (fr' i j))
+    by (intros i j _ _; apply stat_equiv).
+  assert (Hneb : somes (concat (mk2 H_ W_ fb)) <> []).
+  { destruct (fb i0 j0) as [v|] eqn:Ev; [|discriminate Hk0].
+    assert (Hin : In v (somes (concat (mk2 H_ W_ fb)))) by (apply somes_in; rewrite <- Ev; now apply mk2_in_conv).
+    intros E'. rewrite E' in Hin. destruct Hin. }
+  assert (Hner : somes (concat (mk2 H_ W_ fr)) <> []).
+  { assert (Er : fr i0 j0 <> None).
+    { unfold fr, fb in *. unfold box_stat in *.
+      destruct (excluded by_ bx p (length (box_vals data mask cov clip (cell i0 j0)))); cbn in *;
+        [discriminate Hk0|discriminate]. }
+    destruct (fr i0 j0) as [v|] eqn:Ev; [|congruence].
+    assert (Hin : In v (somes (concat (mk2 H_ W_ fr)))) by (apply somes_in; rewrite <- Ev; now apply mk2_in_conv).
+    intros E'. rewrite E' in Hin. destruct Hin. }
+  destruct (interp_grid_rel idw Hidw K C H_ W_ fb fb' HK HH Hfb Hneb) as (F & F' & EF & EF' & HF).
+  destruct (interp_grid_rel idw Hidw K 0 H_ W_ fr fr' HK HH Hfr Hner) as (G & G' & EG & EG' & HG).
+  rewrite EF, EF', EG, EG'.
+  assert (Hmin : arel K C (qminl (somes (concat (mk2 H_ W_ fb)))) (qminl (somes (concat (mk2 H_ W_ fb'))))).
+  { apply arel_qminl; [exact HK|now apply good_rel|exact Hneb]. }
+  assert (Hthr : match fthr, fthr' with
+                 | None, None => True | Some u, Some u' => arel K C u u' | _, _ => False end).
+  { unfold fthr'. destruct fthr; cbn; [unfold arel; reflexivity|exact I]. }
+  pose proof (filter_grid_rel median Hmed fy fx Hfy Hfx K C K C H_ W_ fthr fthr' _ _ F F' F F'
+                HK HK HH Hthr Hmin HF HF) as Hbm.
+  pose proof (filter_grid_rel median Hmed fy fx Hfy Hfx K C K 0 H_ W_ fthr fthr' _ _ F F' G G'
+                HK HK HH Hthr Hmin HF HG) as Hrm.
+  split; [exact Hbm|]. split; [exact Hrm|].
+  intros y x d Hy Hx. destruct (get2 false cov y x) eqn:Hc.
+  - repeat split; now apply calc_image_cov.
+  - split; apply (calc_image_rel interp Hint); try assumption.
+    + apply (shape_concat_nonempty H_ W_); try assumption.
+      apply filter_grid_shape; [apply shape_mk2|exact HH].
+    + apply (shape_concat_nonempty H_ W_); try assumption.
+      apply filter_grid_shape; [apply shape_mk2|exact HH].
+Qed.
+End PipeEquiv.
+
+(* ================================================================== *)
+(* Part 6: the hypotheses of Part 5 are satisfiable (concrete instances) *)
+(* ================================================================== *)
+Lemma zsum_affine k c l :
+  zsum (map (fun v => k * v + c)%Z l) = (k * zsum l + c * Z.of_nat (length l))%Z.
+Proof.
+  induction l as [|x l IH]; [cbn; lia|]. cbn [map]. rewrite !zsum_cons, IH. cbn [length]. lia.
+Qed.
+
+Lemma qmean_equivariant k c l :
+  l <> [] -> qmean (map (fun v => k * v + c)%Z l) == inject_Z k * qmean l + inject_Z c.
+Proof.
+  intros Hn. unfold qmean. rewrite map_length, zsum_affine.
+  assert (Hl : (length l <> 0)%nat) by (destruct l; [congruence|cbn; lia]).
+  unfold Qeq, Qplus, Qmult, inject_Z. cbn [Qnum Qden].
+  rewrite !Pos2Z.inj_mul, !pos_of_nat_Z by exact Hl. ring.
+Qed.
+
+Lemma Forall2_qinsert a b x x' l l' :
+  0 < a -> arel a b x x' -> Forall2 (arel a b) l l' ->
+  Forall2 (arel a b) (qinsert x l) (qinsert x' l').
+Proof.
+  intros Ha Hx H. induction H as [|y y' l l' Hy Hl IH]; cbn [qinsert]; [now repeat constructor|].
+  rewrite (arel_le a b Ha x x' y y' Hx Hy). destruct (Qle_bool x y); repeat constructor; auto.
+Qed.
+Lemma Forall2_qsort a b l l' :
+  0 < a -> Forall2 (arel a b) l l' -> Forall2 (arel a b) (qsort l) (qsort l').
+Proof.
+  intros Ha H. induction H as [|y y' l l' Hy Hl IH]; [constructor|].
+  rewrite !qsort_cons. now apply Forall2_qinsert.
+Qed.
+Lemma Forall2_nth_rel (R : Q -> Q -> Prop) l l' n d d' :
+  Forall2 R l l' -> (n < length l)%nat -> R (nth n l d) (nth n l' d').
+Proof.
+  intros H. revert n. induction H as [|y y' l l' Hy Hl IH]; intros n Hn; [cbn in Hn; lia|].
+  destruct n; [exact Hy|]. cbn. apply IH. cbn in Hn. lia.
+Qed.
+
+Lemma Forall2_len {A B} (R : A -> B -> Prop) l l' : Forall2 R l l' -> length l = length l'.
+Proof. induction 1; cbn; congruence. Qed.
+
+Lemma qmedian_equivariant : median_equivariant qmedian.
+Proof.
+  intros a b Ha l l' H Hn. unfold qmedian.
+  pose proof (Forall2_qsort a b l l' Ha H) as Hs.
+  rewrite <- (Forall2_len _ _ _ Hs).
+  assert (Hlen : (0 < length (qsort l))%nat).
+  { rewrite qsort_length. destruct l; [congruence|cbn; lia]. }
+  assert (Hhalf : (length (qsort l) / 2 < length (qsort l))%nat) by (apply Nat.div_lt; lia).
+  destruct (Nat.even (length (qsort l))).
+  - pose proof (Forall2_nth_rel _ _ _ (length (qsort l) / 2 - 1)%nat 0 0 Hs ltac:(lia)) as H1.
+    pose proof (Forall2_nth_rel _ _ _ (length (qsort l) / 2)%nat 0 0 Hs Hhalf) as H2.
+    unfold arel in *. rewrite H1, H2. field.
+  - now apply Forall2_nth_rel.
+Qed.
+
+(* nearest-good-cell fill and first-cell "upscaling": trivially equivariant stand-ins that
+   show the hypotheses on IDW and zoom are satisfiable *)
+Definition idw_first (g : img (option Q)) (_ _ : nat) : Q := hd 0 (somes (concat g)).
+Definition interp_first (m : img Q) (_ _ : nat) : Q := hd 0 (concat m).
+
+Lemma idw_first_equivariant : idw_equivariant idw_first.
+Proof.
+  intros a b Ha g g' H Hn i j. unfold idw_first.
+  pose proof (Forall2_somes _ _ _ (Forall2_concat _ _ _ H)) as Hs.
+  destruct Hs; [congruence|assumption].
+Qed.
+Lemma interp_first_equivariant : interp_equivariant interp_first.
+Proof.
+  intros a b Ha m m' H Hn y x. unfold interp_first.
+  pose proof (Forall2_concat _ _ _ H) as Hs. destruct Hs; [congruence|assumption].
+Qed.
+
+(* ================================================================== *)
+(* Part 7: remaining statements used by C11_Properties                   *)
+(* ================================================================== *)
+(* the unrepaired rule (ngood <= threshold) excludes a box without a single masked pixel
+   when exclude_percentile = 0 — for every box size *)
+Lemma unrepaired_rule_excludes_clean_box by_ bx :
+  excluded_unrepaired by_ bx 0 (by_ * bx) = true /\
+  ((0 < by_ * bx)%nat -> excluded by_ bx 0 (by_ * bx) = false).
+Proof.
+  split.
+  - unfold excluded_unrepaired, good_thr, box_npixels. apply Qle_bool_iff.
+    assert (E : (1 - 0 / 100) * inject_Z (Z.of_nat (by_ * bx)) == inject_Z (Z.of_nat (by_ * bx))) by field.
+    rewrite E. apply Qle_refl.
+  - intros Hpos. unfold excluded, good_thr, box_npixels. apply orb_false_iff. split.
+    + unfold Qlt_bool. apply negb_false_iff, Qle_bool_iff.
+      assert (E : (1 - 0 / 100) * inject_Z (Z.of_nat (by_ * bx)) == inject_Z (Z.of_nat (by_ * bx))) by field.
+      rewrite E. apply Qle_refl.
+    + apply Nat.eqb_neq. lia.
+Qed.
+
+Section FinitePre.
+Variables (ny nx by0 bx0 : nat).
+Hypothesis Hny : (0 < ny)%nat.
+Hypothesis Hnx : (0 < nx)%nat.
+Hypothesis Hby0 : (0 < by0)%nat.
+Hypothesis Hbx0 : (0 < bx0)%nat.
+Variable data : img (option Z).
+Variables mask cov : img bool.
+Variable p : Q.
+Variables est rms : list Z -> Q.
+Variable clip : list Z -> list Z.
+Variable idw : img (option Q) -> nat -> nat -> Q.
+Variable median : list Q -> Q.
+Variables (fy fx : nat) (fthr : option Q).
+Variables (fill : Q) (do_clip : bool).
+Variable interp : img Q -> nat -> nat -> Q.
+Notation by_ := (clipbox by0 ny).
+Notation bx := (clipbox bx0 nx).
+
+(* what "finite everywhere" rests on: whenever maps are produced, (1) at least one box is
+   kept, so the IDW fill has a source and min/max of the kept boxes exist; (2) an estimator
+   is only ever applied to a non-empty sample of finite, unmasked pixels; (3) every mesh
+   cell and every map pixel is defined *)
+Lemma b2d_finite_pre np nm bm rm b r :
+  background2d ny nx by0 bx0 data mask cov p est rms clip idw median fy fx fthr fill do_clip interp
+    = Maps np nm bm rm b r ->
+  (exists i j, (i < nmy ny by_)%nat /\ (j < nmx nx bx)%nat /\
+     excluded by_ bx p (length (box_vals data mask cov clip (cell_coords ny nx by_ bx i j))) = false) /\
+  (forall i j, excluded by_ bx p (length (box_vals data mask cov clip (cell_coords ny nx by_ bx i j))) = false ->
+     box_vals data mask cov clip (cell_coords ny nx by_ bx i j) <> []) /\
+  (forall i j v, In v (goodvals (map (fun c => pix data mask cov (fst c) (snd c))
+                                     (cell_coords ny nx by_ bx i j))) ->
+     exists y x, In (y, x) (cell_coords ny nx by_ bx i j) /\
+                 get2 false mask y x = false /\ get2 false cov y x = false /\
+                 get2 None data y x = Some v) /\
+  shape ny nx b /\ shape ny nx r /\ shape (nmy ny by_) (nmx nx bx) bm /\ shape (nmy ny by_) (nmx nx bx) rm.
+Proof.
+  intros E. pose proof E as E0.
+  apply (b2d_maps ny nx by0 bx0) in E as (Hall & _).
+  split; [|split; [|split]].
+  - rewrite all_excluded_nan, nan_mask_mk2 in Hall.
+    apply mk2_forallb_false in Hall as (i & j & Hi & Hj & H). exists i, j. auto.
+  - intros i j Ex Ev. rewrite Ev in Ex. unfold excluded in Ex. cbn [length Nat.eqb] in Ex.
+    now rewrite orb_true_r in Ex.
+  - intros i j v Hv. apply goodvals_in, in_map_iff in Hv as ([y x] & Hp & Hin).
+    cbn [fst snd] in Hp. apply pix_some in Hp. exists y, x. tauto.
+  - eapply b2d_shape in E0; try eassumption. destruct E0 as (S1 & S2 & S3 & S4 & _). auto.
+Qed.
+End FinitePre.
+
+(* constant_image_exact for the concrete estimators of the correspondence: Mean or Median
+   background, Std RMS (its square), sigma_clip=None, the window median — no hypotheses on
+   the IDW fill or on the zoom *)
+Lemma b2d_constant_concrete ny nx by0 bx0 data mask cov p estk idw fy fx fthr fill do_clip interp c
+      np nm bm rm b r :
+  (0 < ny)%nat -> (0 < nx)%nat -> (0 < by0)%nat -> (0 < bx0)%nat -> (0 < fy)%nat -> (0 < fx)%nat ->
+  (forall y x, (y < ny)%nat -> (x < nx)%nat ->
+     pix data mask cov y x = None \/ pix data mask cov y x = Some c) ->
+  background2d ny nx by0 bx0 data mask cov p (est_of estk) qvar noclip idw qmedian fy fx fthr
+               fill do_clip interp = Maps np nm bm rm b r ->
+  (forall i j, (i < nmy ny (clipbox by0 ny))%nat -> (j < nmx nx (clipbox bx0 nx))%nat ->
+     get2 0 bm i j == inject_Z c /\ get2 0 rm i j == 0) /\
+  (forall y x d, (y < ny)%nat -> (x < nx)%nat ->
+     if get2 false cov y x then get2 d b y x = fill /\ get2 d r y x = fill
+     else get2 d b y x == inject_Z c /\ get2 d r y x == 0).
+Proof.
+  intros Hny Hnx Hby0 Hbx0 Hfy Hfx Hconst E.
+  eapply (b2d_constant ny nx by0 bx0 Hny Hnx Hby0 Hbx0 data mask cov p (est_of estk) qvar noclip
+            idw qmedian fy fx fthr Hfy Hfx fill do_clip interp c Hconst); try exact E.
+  - intros l v H. exact H.
+  - intros l. apply est_of_const.
+  - intros l. apply qvar_const.
+  - intros q l. apply qmedian_const.
+Qed.
+
+(* mesh_cell_is_block, all facts about one cell together *)
+Lemma mesh_cell_block_full ny nx by_ bx :
+  (0 < by_)%nat -> (0 < bx)%nat -> forall i j, (i < nmy ny by_)%nat -> (j < nmx nx bx)%nat ->
+  (forall y x, In (y, x) (cell_coords ny nx by_ bx i j) <->
+     (i * by_ <= y < Nat.min ((i + 1) * by_) ny)%nat /\ (j * bx <= x < Nat.min ((j + 1) * bx) nx)%nat) /\
+  NoDup (cell_coords ny nx by_ bx i j) /\
+  Permutation (cell_coords ny nx by_ bx i j) (block_coords ny nx by_ bx i j) /\
+  (length (cell_coords ny nx by_ bx i j) =
+     (Nat.min ((i + 1) * by_) ny - i * by_) * (Nat.min ((j + 1) * bx) nx - j * bx))%nat /\
+  (length (cell_coords ny nx by_ bx i j) <= by_ * bx)%nat.
+Proof.
+  intros Hby Hbx i j Hi Hj. pose proof (cell_is_block ny nx by_ bx Hby Hbx i j Hi Hj) as HP.
+  split; [|split; [|split; [|split]]].
+  - intros y x. rewrite <- in_block by assumption. split; intros H.
+    + now apply (Permutation_in _ HP).
+    + now apply (Permutation_in _ (Permutation_sym HP)).
+  - now apply cell_coords_NoDup.
+  - exact HP.
+  - now rewrite (Permutation_length HP), block_length.
+  - now apply cell_length_le.
+Qed.
